@@ -284,6 +284,118 @@ class _Subst(ast.NodeTransformer):
     visit_ListComp = visit_SetComp = visit_DictComp = visit_GeneratorExp = _comp
 
 
+class _Repl(_Subst):
+    """replace given nodes (by identity) in an expression; never mutates the input"""
+
+    def __init__(self, repl):
+        _Subst.__init__(self, {}, {})
+        self.repl = repl
+
+    def visit(self, node):
+        if id(node) in self.repl:
+            return self.repl[id(node)]
+        return _Subst.visit(self, node)
+
+    def visit_Name(self, n):
+        return n
+
+    def visit_Lambda(self, n):
+        return n
+
+    def _comp(self, n):
+        return n
+
+    visit_ListComp = visit_SetComp = visit_DictComp = visit_GeneratorExp = _comp
+
+
+class _Canon(_Subst):
+    """one spelling for a component of a declared namedtuple value: `v[i]` becomes `v.<field i>`"""
+
+    def __init__(self, sx):
+        _Subst.__init__(self, {}, {})
+        self.sx = sx
+
+    def visit_Name(self, n):
+        return n
+
+    def visit_Attribute(self, n):
+        return self.generic_visit(n)
+
+    def visit_Lambda(self, n):
+        return n
+
+    def _comp(self, n):
+        return n
+
+    visit_ListComp = visit_SetComp = visit_DictComp = visit_GeneratorExp = _comp
+
+    def visit_Subscript(self, n):
+        n = self.generic_visit(n)
+        if isinstance(n.ctx, ast.Load) and isinstance(n.slice, ast.Constant) and type(n.slice.value) is int:
+            vt = self.sx._vtype(n.value)
+            if vt is not None and 0 <= n.slice.value < len(vt[1]):
+                return ast.copy_location(ast.Attribute(value=n.value, attr=vt[1][n.slice.value], ctx=ast.Load()), n)
+            if isinstance(n.value, ast.Tuple) and not any(isinstance(x, ast.Starred) for x in n.value.elts) and -len(n.value.elts) <= n.slice.value < len(n.value.elts):
+                return n.value.elts[n.slice.value]
+        return n
+
+    def _flat(self, elts):
+        """`*(a, b)` inside a display / an argument list is `a, b`"""
+        out = []
+        ch = False
+        for x in elts:
+            if isinstance(x, ast.Starred) and isinstance(x.value, (ast.Tuple, ast.List)) and not any(isinstance(y, ast.Starred) for y in x.value.elts):
+                out.extend(x.value.elts)
+                ch = True
+            else:
+                out.append(x)
+        return out if ch else None
+
+    def visit_Tuple(self, n):
+        n = self.generic_visit(n)
+        if isinstance(n.ctx, ast.Load):
+            f = self._flat(n.elts)
+            if f is not None:
+                return ast.copy_location(ast.Tuple(elts=f, ctx=ast.Load()), n)
+        return n
+
+    def visit_Call(self, n):
+        n = self.generic_visit(n)
+        f = self._flat(n.args)
+        if f is not None:
+            n = ast.copy_location(ast.Call(func=n.func, args=f, keywords=n.keywords), n)
+        g = n.func
+        fname = chain(g)
+        if fname == "getattr" and len(n.args) == 2 and not n.keywords and isinstance(n.args[1], ast.Constant) and isinstance(n.args[1].value, str) and n.args[1].value.isidentifier() and not isinstance(n.args[0], ast.Starred):
+            return ast.copy_location(ast.Attribute(value=n.args[0], attr=n.args[1].value, ctx=ast.Load()), n)
+        if fname == "super" and len(n.args) == 2 and not n.keywords and chain(n.args[1]) == "self" and isinstance(n.args[0], ast.Name):
+            cls = getattr(getattr(self.sx, "fi", None), "cls", None)
+            if cls is not None and getattr(getattr(cls, "node", None), "name", None) == n.args[0].id:
+                return ast.copy_location(ast.Call(func=n.func, args=[], keywords=[]), n)
+        if isinstance(g, ast.Call) and not any(isinstance(a, ast.Starred) for a in g.args) and not any(k.arg is None for k in g.keywords):
+            name = (chain(g.func) or "").split(".")[-1]
+            if name == "partial" and g.args:
+                # functools.partial(f, a.., k=..)(b.., k2=..) is f(a.., b.., k=.., k2=..)
+                later = {k.arg for k in n.keywords if k.arg is not None}
+                kws = [k for k in g.keywords if k.arg not in later] + list(n.keywords)
+                return ast.copy_location(ast.Call(func=g.args[0], args=list(g.args[1:]) + list(n.args), keywords=kws), n)
+            if name in ("attrgetter", "itemgetter") and g.args and not g.keywords and len(n.args) == 1 and not n.keywords and not isinstance(n.args[0], ast.Starred):
+                got = []
+                for a in g.args:
+                    if name == "attrgetter":
+                        if not (isinstance(a, ast.Constant) and isinstance(a.value, str) and all(p.isidentifier() for p in a.value.split("."))):
+                            return n
+                        v = n.args[0]
+                        for part in a.value.split("."):
+                            v = ast.Attribute(value=v, attr=part, ctx=ast.Load())
+                        got.append(v)
+                    else:
+                        got.append(self.visit_Subscript(ast.Subscript(value=n.args[0], slice=a, ctx=ast.Load())) if isinstance(a, ast.Constant) else ast.Subscript(value=n.args[0], slice=a, ctx=ast.Load()))
+                r = got[0] if len(got) == 1 else ast.Tuple(elts=got, ctx=ast.Load())
+                return ast.copy_location(r, n)
+        return n
+
+
 def free_of_forks(e, sx=None):
     """no conditional expression, boolean operator, min/max or helper call (evaluated in place) inside e"""
     for n in _walk_values(e):
@@ -292,8 +404,14 @@ def free_of_forks(e, sx=None):
         if isinstance(n, ast.Call):
             if chain(n.func) in ("min", "max") and len(n.args) >= 2:
                 return False
+            if chain(n.func) in ("any", "all") and len(n.args) == 1 and not n.keywords and isinstance(n.args[0], (ast.Tuple, ast.List)):
+                return False
+            if chain(n.func) == "divmod" and len(n.args) == 2 and not n.keywords:
+                return False
             if sx is not None and sx._inlinable(n):
                 return False
+        if sx is not None and sx.value_types and isinstance(n, ast.Attribute) and sx._typed_prop(n) is not None:
+            return False
     return True
 
 
@@ -327,6 +445,13 @@ class SymExec:
         # attribute chain text -> (lo, hi): integer-valued expressions with a known range; their truth is `!= 0`
         self.domains = {}
         self.inlined = []  # qualified names of helpers evaluated in place
+        # [(predicate on a resolved expression, ClassInfo, field names)]: values of a namedtuple class of the program.
+        # `v[i]` and `v.field_i` are the same value (one canonical spelling), its properties and side-effect-free
+        # methods are evaluated in place (so `b.is_bert`, `b.size_exponent == 7`, `b.is_valid_for_payload_size(n)` and
+        # the spelled-out comparison are the same facts)
+        self.value_types = []
+        self._modenv = None
+        self.followed = set()  # helpers with effects whose paths were spliced into the caller's
 
     # ------------------------------------------------------------------ atoms
     def _atom(self, e):
@@ -367,6 +492,13 @@ class SymExec:
             return self._atom(ast.Compare(left=e, ops=[ast.NotEq()], comparators=[ast.Constant(value=0)]))
         if txt(e) in self.nonempty_when_set:
             return self._atom(ast.Compare(left=e, ops=[ast.IsNot()], comparators=[ast.Constant(value=None)]))
+        # the truth of a number is `!= 0`: remainders, quotients, shifted values, powers (operators that sets / strings
+        # do not have, `%` on a string constant excluded; `a - b` and `a & b` may be set operations and stay opaque)
+        if isinstance(e, ast.BinOp) and isinstance(e.op, (ast.Mod, ast.FloorDiv, ast.LShift, ast.RShift, ast.Pow)) and not (isinstance(e.left, ast.Constant) and isinstance(e.left.value, (str, bytes))) and not isinstance(e.left, ast.JoinedStr):
+            try:
+                return self._atom(ast.Compare(left=e, ops=[ast.NotEq()], comparators=[ast.Constant(value=0)]))
+            except NormError:
+                pass
         # truth of a value is the fact `len(value) >= 1` over the opaque non-negative integer len(value): `if x`,
         # `if len(x)`, `len(x) == 0`, `len(x) > 0`, `not x` are then one family of facts.  (For values without a
         # length the symbol is merely a name for their truth.)
@@ -520,6 +652,14 @@ class SymExec:
             yield from self._decide_atom(e, facts)
             return
         if isinstance(e, ast.Call):
+            if chain(e.func) in ("any", "all") and len(e.args) == 1 and not e.keywords and isinstance(e.args[0], (ast.Tuple, ast.List)) and not any(isinstance(x, ast.Starred) for x in e.args[0].elts):
+                # every element of the display is evaluated, the result is their disjunction / conjunction
+                elts = e.args[0].elts
+                if not elts:
+                    yield chain(e.func) == "all", facts
+                    return
+                yield from self.decide(ast.BoolOp(op=ast.Or() if chain(e.func) == "any" else ast.And(), values=list(elts)) if len(elts) > 1 else elts[0], facts)
+                return
             inl = self._inline_call(e, facts)
             if inl is not None:
                 for v, f in inl:
@@ -540,10 +680,60 @@ class SymExec:
         if cur is not None:
             yield cur, facts
             return
+        lem = self._div_lemma(a, facts)
+        if lem is not None:
+            a1, a2 = lem  # A == B  <=>  A // B == 1 and A % B == 0   (B > 0)
+            want_eq = a[5] == "eq"
+            got = False
+            f1 = self._assume_atom(a1, True, facts)
+            f2 = self._assume_atom(a2, True, f1) if f1 is not None else None
+            f3 = self._assume_atom(a, want_eq, f2) if f2 is not None else None
+            if f3 is not None:
+                got = True
+                yield want_eq, f3
+            for g in ([self._assume_atom(a1, False, facts)] + [self._assume_atom(a2, False, f1) if f1 is not None else None]):
+                g2 = self._assume_atom(a, not want_eq, g) if g is not None else None
+                if g2 is not None:
+                    got = True
+                    yield (not want_eq), g2
+            if got:
+                return
         for val in (True, False):
             f = self._assume_atom(a, val, facts)
             if f is not None:
                 yield val, f
+
+    def _div_lemma(self, a, facts):
+        """For an undecided atom `A == B` (A, B the positive / negative part of its polynomial, B a positive
+        power-of-two term) when the facts talk about A // B or A % B: the atoms `A // B == 1`, `A % B == 0`."""
+        if a[0] != "iv" or a[5] not in ("eq", "ne") or a[4] != 0:
+            return None
+        q = a[2]
+        pos = Poly({k: v for k, v in q.t.items() if v > 0})
+        neg = Poly({k: -v for k, v in q.t.items() if v < 0})
+        if not pos.t or not neg.t:
+            return None
+        for A, B in ((pos, neg), (neg, pos)):
+            if len(B.t) != 1:
+                continue
+            (mono, coef), = B.t.items()
+            if coef <= 0 or not mono or not all(x.startswith("pow2(") for x, _p in mono):
+                if not (coef > 0 and not mono):
+                    continue
+            fd, md = "floordiv(%r,%r)" % (A, B), "mod(%r,%r)" % (A, B)
+            seen = set()
+            for qk in facts.iv:
+                for m, _c in qk:
+                    for x, _p in m:
+                        seen.add(x)
+            if fd not in seen and md not in seen:
+                continue
+            out = []
+            for name, c in ((fd, 1), (md, 0)):
+                qk, q2, s2, c2 = _split(Poly.atom(name) - Poly.const(c))
+                out.append(("iv", qk, q2, s2, c2, "eq"))
+            return out
+        return None
 
     def entails(self, facts, cond):
         """cond is true in every consistent refinement of facts"""
@@ -600,9 +790,36 @@ class SymExec:
 
                 yield from fold(0, None, facts)
                 return
+            if fn == "divmod" and len(e.args) == 2 and not e.keywords:
+                # divmod(a, b) == (a // b, a % b)
+                for a_, f1 in self.value(e.args[0], facts):
+                    for b_, f2 in self.value(e.args[1], f1):
+                        yield ast.Tuple(elts=[ast.BinOp(left=a_, op=ast.FloorDiv(), right=b_), ast.BinOp(left=a_, op=ast.Mod(), right=b_)], ctx=ast.Load()), f2
+                return
+            if fn in ("any", "all") and len(e.args) == 1 and not e.keywords and isinstance(e.args[0], (ast.Tuple, ast.List)):
+                for b, f in self.decide(e, facts):
+                    yield ast.Constant(value=b), f
+                return
             inl = self._inline_call(e, facts)
             if inl is not None:
                 yield from inl
+                return
+        if isinstance(e, ast.Attribute) and self.value_types:
+            tp = self._typed_prop(e)
+            if tp is not None:
+                done = False
+                if free_of_forks(e.value, self):
+                    call = ast.Call(func=e, args=[], keywords=[])
+                    inl = self._inline_call(call, facts, r=(tp.node, e.value, True, tp.qn))
+                    if inl is not None:
+                        done = True
+                        yield from inl
+                else:
+                    for rv, f1 in self.value(e.value, facts):
+                        yield from self.value(ast.Attribute(value=rv, attr=e.attr, ctx=ast.Load()), f1)
+                    done = True
+                if not done:
+                    yield e, facts
                 return
         if isinstance(e, (ast.Lambda, ast.ListComp, ast.SetComp, ast.DictComp, ast.GeneratorExp)):
             yield e, facts
@@ -712,7 +929,9 @@ class SymExec:
                     continue
                 if isinstance(st, ast.Return):
                     continue
-                if isinstance(st, ast.Assign) and all(isinstance(t, ast.Name) for t in st.targets):
+                if isinstance(st, ast.Assign) and all(isinstance(t, ast.Name) or (isinstance(t, (ast.Tuple, ast.List)) and all(isinstance(x, ast.Name) for x in t.elts)) for t in st.targets):
+                    continue
+                if isinstance(st, ast.AnnAssign) and isinstance(st.target, ast.Name):
                     continue
                 if isinstance(st, ast.If):
                     if not ok(st.body) or not ok(st.orelse):
@@ -728,11 +947,36 @@ class SymExec:
                 return False
         return True
 
+    def _vtype(self, e):
+        for pred, ci, fields in self.value_types:
+            if pred(e):
+                return ci, fields
+        return None
+
+    def _typed_prop(self, e):
+        """FuncInfo of the side-effect-free property read by `e` (an attribute of a declared namedtuple value), or None"""
+        if not isinstance(e, ast.Attribute) or not isinstance(e.ctx, ast.Load) or self._depth >= self.inline_depth:
+            return None
+        vt = self._vtype(e.value)
+        if vt is None:
+            return None
+        m = vt[0].methods.get(e.attr)
+        if m is None or not any(ast.unparse(d) == "property" for d in m.node.decorator_list) or not self._pure_body(m.node):
+            return None
+        return m
+
     def _inlinable(self, call):
         """(def node, receiver, has_self, qualified name) when the call goes to a side-effect-free helper that is not
-        a function of the confirmed tree, else None"""
+        a function of the confirmed tree (or to a side-effect-free method of a declared namedtuple value), else None"""
         if self._depth >= self.inline_depth:
             return None
+        if self.value_types and isinstance(call.func, ast.Attribute):
+            vt = self._vtype(call.func.value)
+            if vt is not None:
+                m = vt[0].methods.get(call.func.attr)
+                if m is not None and not m.node.decorator_list and self._pure_body(m.node) and not any(isinstance(a, ast.Starred) for a in call.args) and not any(k.arg is None for k in call.keywords):
+                    return m.node, call.func.value, True, m.qn
+                return None
         r = self._callee(call)
         if r is None:
             return None
@@ -752,9 +996,10 @@ class SymExec:
             return None
         return node, recv, has_self, qn
 
-    def _inline_call(self, call, facts):
+    def _inline_call(self, call, facts, r=None):
         """list of (return value, facts) of a helper evaluated in place, or None"""
-        r = self._inlinable(call)
+        if r is None:
+            r = self._inlinable(call)
         if r is None:
             return None
         node, recv, has_self, qn = r
@@ -792,6 +1037,8 @@ class SymExec:
         sub._inl_cache = self._inl_cache
         sub.nonempty_when_set = self.nonempty_when_set
         sub.domains = self.domains
+        sub.value_types = self.value_types
+        sub._modenv = {}
         out = []
         for p in sub.paths(facts=facts, env=env):
             if p.end == "return" and p.ret is not None:
@@ -805,11 +1052,81 @@ class SymExec:
 
     # ------------------------------------------------------------------ path enumeration
     def subst(self, e, env, chains=None):
-        if not env and not chains:
-            return e
-        return _Subst(env, chains or {}).visit(e)
+        if env or chains:
+            e = _Subst(env, chains or {}).visit(e)
+        return _Canon(self).visit(e)
 
-    def paths(self, facts=None, env=None, assume=()):
+    def declare_type(self, pred, clsinfo, fields):
+        self.value_types.append((pred, clsinfo, list(fields)))
+
+    def module_env(self):
+        """Free names of the function that are module-level constants (bound once at module level to a number, a
+        string, or a tuple of such / of dotted names): name -> value expression.  `_BERT_SIZE = 7` used in the
+        function is the number 7."""
+        if self._modenv is not None:
+            return self._modenv
+        env = {}
+        fi = self.fi
+        mod = getattr(fi, "module", None)
+        node = getattr(fi, "node", None)
+        if mod is not None and node is not None and hasattr(mod, "tree"):
+            local = set()
+            for n in ast.walk(node):
+                if isinstance(n, ast.Name) and isinstance(n.ctx, (ast.Store, ast.Del)):
+                    local.add(n.id)
+                elif isinstance(n, ast.arg):
+                    local.add(n.arg)
+                elif isinstance(n, (ast.FunctionDef, ast.AsyncFunctionDef, ast.ClassDef)) and n is not node:
+                    local.add(n.name)
+                elif isinstance(n, (ast.Global, ast.Nonlocal)):
+                    local |= set(n.names)
+                elif isinstance(n, ast.ExceptHandler) and n.name:
+                    local.add(n.name)
+                elif isinstance(n, ast.alias):
+                    local.add((n.asname or n.name).split(".")[0])
+            free = {n.id for n in ast.walk(node) if isinstance(n, ast.Name) and isinstance(n.ctx, ast.Load)} - local
+            binds = {}
+            for st in ast.walk(mod.tree):
+                if isinstance(st, ast.Global):
+                    for nm in st.names:
+                        binds[nm] = None
+            for st in mod.tree.body:
+                tg = []
+                if isinstance(st, ast.Assign):
+                    tg = [(t, st.value) for t in st.targets]
+                elif isinstance(st, ast.AnnAssign) and st.value is not None:
+                    tg = [(st.target, st.value)]
+                else:
+                    for n in ast.walk(st):
+                        if isinstance(n, ast.Name) and isinstance(n.ctx, (ast.Store, ast.Del)) and not isinstance(st, (ast.FunctionDef, ast.AsyncFunctionDef, ast.ClassDef)):
+                            binds[n.id] = None
+                    if isinstance(st, (ast.FunctionDef, ast.AsyncFunctionDef, ast.ClassDef)):
+                        binds[st.name] = None
+                    continue
+                for t, v in tg:
+                    for n in ast.walk(t):
+                        if isinstance(n, ast.Name):
+                            binds[n.id] = v if (isinstance(t, ast.Name) and n.id not in binds) else None
+
+            def simple(v, depth=0):
+                if isinstance(v, ast.Constant) and (v.value is None or isinstance(v.value, (bool, int, str, bytes))):
+                    return True
+                if isinstance(v, ast.UnaryOp) and isinstance(v.op, ast.USub) and isinstance(v.operand, ast.Constant) and isinstance(v.operand.value, int):
+                    return True
+                if isinstance(v, ast.Tuple) and depth < 2:
+                    return all(simple(x, depth + 1) or (chain(x) is not None and chain(x).split(".")[0] not in local) for x in v.elts)
+                if isinstance(v, ast.Call) and (chain(v.func) or "").split(".")[-1] in ("attrgetter", "itemgetter") and v.args and not v.keywords and all(isinstance(x, ast.Constant) for x in v.args):
+                    return True  # a constant callable: operator.attrgetter("a", "b") / itemgetter(0, 2)
+                return False
+
+            for nm in free:
+                v = binds.get(nm)
+                if v is not None and simple(v):
+                    env[nm] = v
+        self._modenv = env
+        return env
+
+    def paths(self, facts=None, env=None, assume=(), chains=None):
         """enumerate the paths.  `assume`: [(condition source or AST, bool)] facts taken for granted at entry."""
         facts = facts or Facts()
         for cond, val in assume:
@@ -820,7 +1137,9 @@ class SymExec:
                 raise AnalysisError("assumption %s is not atomic" % txt(cond))
             facts = fs[0]
         c = self.cfg
-        st0 = _State(dict(env or {}), {}, facts, (), (), {}, NORET, {}, {}, 0)
+        env0 = dict(self.module_env())
+        env0.update(env or {})
+        st0 = _State(env0, dict(chains or {}), facts, (), (), {}, NORET, {}, {}, 0)
         out = []
         stack = [(c.entry, st0, None)]
         while stack:
@@ -902,17 +1221,24 @@ class SymExec:
                 yield (d, st2, None)
             return
         if k == "test":
-            e = self.subst(node.ast, st.env, st.chains)
+            e, st = self._pre(node.ast, st, nid, node.ast)
+            caps = {}
+            if isinstance(e, ast.Call) and chain(e.func) == "__match__":
+                e, caps = self._match_cond(e)
             for b, f in self.decide(e, st.facts):
                 st2 = st.but(facts=f)
                 st2 = st2.but(events=st2.events + (self._ev(st, "test", nid, node.ast, value=e, outcome=b, raw=node.ast),))
+                if b and caps:
+                    env = dict(st2.env)
+                    env.update(caps)
+                    st2 = st2.but(env=env)
                 for d, l in normal:
                     if l == ("T" if b else "F"):
                         yield (d, st2, None)
             return
         if k == "for":
             f_ = node.ast
-            it = self.subst(f_.iter, st.env, st.chains)
+            it, st = self._pre(f_.iter, st, nid, f_)
             iters = n_seen
             for d, l in normal:
                 if l == "T" and iters < self.loop_bound:
@@ -930,7 +1256,9 @@ class SymExec:
             return
         if k == "raise":
             r = node.ast
-            exc = self.subst(r.exc, st.env, st.chains) if r.exc is not None else None
+            exc = None
+            if r.exc is not None:
+                exc, st = self._pre(r.exc, st, nid, r)
             st2 = st.but(events=st.events + (self._ev(st, "raise", nid, r, value=exc, raw=r.exc),))
             for d, _l in excs:
                 if c.nodes[d].kind == "handler":
@@ -951,7 +1279,7 @@ class SymExec:
                 for d, _l in normal:
                     yield (d, st2, None)
                 return
-            e = self.subst(r.value, st.env, st.chains)
+            e, st = self._pre(r.value, st, nid, r)
             for v, f in self.value(e, st.facts):
                 st2 = st.but(facts=f)
                 st2 = st2.but(ret=v, events=st2.events + (self._ev(st2, "ret", nid, r, value=v, raw=r.value),))
@@ -960,9 +1288,156 @@ class SymExec:
             return
         # plain statements
         s = node.ast
+        if isinstance(s, ast.Expr):
+            fol = self._follow_stmt(nid, s, st)
+            if fol is not None:
+                for kind, st2 in fol:
+                    if kind == "normal":
+                        for d, _l in normal:
+                            yield (d, st2, None)
+                        continue
+                    # the helper raised: as an explicit raise at this statement
+                    for d, _l in excs:
+                        if c.nodes[d].kind == "handler":
+                            yield (d, st2.but(events=st2.events + (self._ev(st2, "exc", nid, s, value=d),)), "exc")
+                        elif d == c.rexit:
+                            yield self._finish(st2.but(nodes=st2.nodes + (d,)), "raise")
+                        else:
+                            yield (d, st2, None)
+                    if not excs:
+                        yield self._finish(st2, "raise")
+                return
         for st2 in self._exec(nid, s, st):
             for d, _l in normal:
                 yield (d, st2, None)
+
+    def _followable(self, v):
+        """(FuncInfo, call) when the fork-free statement value `v` is a call of a helper with effects that is not part
+        of the confirmed tree and that the canonicalisation did not expand (e.g. because the callee is chosen by a
+        conditional expression, or the helper returns from inside a try)"""
+        call = v.value if isinstance(v, ast.Await) else v
+        if not isinstance(call, ast.Call) or self._depth >= self.inline_depth:
+            return None
+        if any(isinstance(a, ast.Starred) for a in call.args) or any(k.arg is None for k in call.keywords):
+            return None
+        try:
+            cal = self._callee(call)
+        except Exception:
+            cal = None
+        if cal is None:
+            return None
+        node, recv, has_self = cal
+        fi2 = None
+        for q, f in self.prog.funcs.items():
+            if f.node is node:
+                fi2 = f
+                break
+        if fi2 is None or fi2.qn in baseline() or self._pure_body(node):
+            return None
+        if isinstance(node, ast.AsyncFunctionDef) != isinstance(v, ast.Await):
+            return None
+        if node.args.vararg or node.args.kwarg or any(isinstance(n, (ast.Yield, ast.YieldFrom)) for n in ast.walk(node)):
+            return None
+        return fi2, call, recv, has_self
+
+    def _follow_stmt(self, nid, s, st):
+        """[(kind, state)] for an expression statement whose value calls a followable helper on at least one fork, else None"""
+        e, st1 = self._pre(s.value, st, nid, s)
+        vals = list(self.value(e, st1.facts))
+        if not any(self._followable(v) for v, _f in vals):
+            return None
+        out = []
+        for v, f in vals:
+            st2 = st1.but(facts=f)
+            st2 = st2.but(events=st2.events + (self._ev(st2, "expr", nid, s, value=v, raw=s.value),))
+            fo = self._followable(v)
+            if fo is None:
+                for obj, name, val in _attr_stores(v):
+                    st2 = self._bind(nid, s, ast.Attribute(value=obj, attr=name, ctx=ast.Store()), val, st2, raw=None)
+                out.append(("normal", st2))
+                continue
+            fi2, call, recv, has_self = fo
+            a = fi2.node.args
+            names = [x.arg for x in a.posonlyargs + a.args]
+            env = {}
+            if has_self and names:
+                if recv is not None and not (isinstance(recv, ast.Name) and recv.id == names[0]):
+                    env[names[0]] = recv
+                names = names[1:]
+            if len(call.args) > len(names):
+                out.append(("normal", st2))
+                continue
+            env.update(zip(names, call.args))
+            for k in call.keywords:
+                env[k.arg] = k.value
+            for p_, d in zip(reversed(a.posonlyargs + a.args), reversed(a.defaults)):
+                env.setdefault(p_.arg, d)
+            for p_, d in zip(a.kwonlyargs, a.kw_defaults):
+                if d is not None:
+                    env.setdefault(p_.arg, d)
+            env = {k: x for k, x in env.items() if not (isinstance(x, ast.Name) and x.id == k)}
+            sub = SymExec(self.prog, fi2, loop_bound=self.loop_bound, include_exc=self.include_exc, max_paths=self.max_paths, inline_depth=self.inline_depth, _depth=self._depth + 1)
+            sub.nonempty_when_set = self.nonempty_when_set
+            sub.domains = self.domains
+            sub.value_types = self.value_types
+            sub._inl_cache = self._inl_cache
+            self.followed.add(fi2.qn)
+            for sp in sub.paths(facts=st2.facts, env=env, chains=st2.chains):
+                evs = tuple(Ev(x.kind, ("helper", fi2.qn, x.nid), x.node, x.env, x.chains, x.facts, target=x.target, key=x.key, value=x.value, outcome=x.outcome, raw=x.raw) for x in sp.events)
+                st3 = st2.but(facts=sp.facts, chains=sp.chains, events=st2.events + evs)
+                if sp.end in ("return", "fall"):
+                    out.append(("normal", st3))
+                elif sp.end == "raise":
+                    out.append(("raise", st3))
+                else:
+                    raise AnalysisError("helper %s: loop in the path model" % fi2.short)
+            self.followed |= sub.followed
+        return out
+
+    def _pre(self, raw, st, nid, node):
+        """resolve an expression about to be evaluated.  Assignment expressions in it are bindings made on the way:
+        `(x := e)` binds x to the value of e (a `bind` event) and stands for that value."""
+        ws = [n for n in _walk_values(raw) if isinstance(n, ast.NamedExpr)]
+        if not ws:
+            return self.subst(raw, st.env, st.chains), st
+        ws.sort(key=lambda n: (getattr(n, "end_lineno", 0), getattr(n, "end_col_offset", 0)))
+        repl = {}
+        for w in ws:
+            v = self.subst(_Repl(repl).visit(w.value), st.env, st.chains)
+            st = self._bind(nid, node, w.target, v, st, raw=None)
+            repl[id(w)] = ast.Name(id=w.target.id, ctx=ast.Load())
+        return self.subst(_Repl(repl).visit(raw), st.env, st.chains), st
+
+    def _match_cond(self, e):
+        """`match` on a declared namedtuple value with a fixed-length sequence pattern of literals / captures /
+        wildcards: the equivalent condition over its components and the captured names.  Anything else stays the
+        opaque test the CFG made of it."""
+        if len(e.args) != 2 or not isinstance(e.args[1], ast.Constant) or not isinstance(e.args[1].value, str):
+            return e, {}
+        subj = e.args[0]
+        vt = self._vtype(subj)
+        if vt is None:
+            return e, {}
+        try:
+            pat = ast.parse("match _:\n case %s:\n  pass" % e.args[1].value).body[0].cases[0].pattern
+        except SyntaxError:
+            return e, {}
+        if not isinstance(pat, ast.MatchSequence) or len(pat.patterns) != len(vt[1]):
+            return e, {}
+        conds = [ast.Compare(left=subj, ops=[ast.IsNot()], comparators=[ast.Constant(value=None)])]
+        caps = {}
+        for i, p in enumerate(pat.patterns):
+            comp = ast.Attribute(value=subj, attr=vt[1][i], ctx=ast.Load())
+            if isinstance(p, ast.MatchValue):
+                conds.append(ast.Compare(left=comp, ops=[ast.Eq()], comparators=[p.value]))
+            elif isinstance(p, ast.MatchSingleton):
+                conds.append(ast.Compare(left=comp, ops=[ast.Is()], comparators=[ast.Constant(value=p.value)]))
+            elif isinstance(p, ast.MatchAs) and p.pattern is None:
+                if p.name is not None:
+                    caps[p.name] = comp
+            else:
+                return e, {}
+        return (ast.BoolOp(op=ast.And(), values=conds) if len(conds) > 1 else conds[0]), caps
 
     def _exec(self, nid, s, st):
         if isinstance(s, (ast.FunctionDef, ast.AsyncFunctionDef)):
@@ -974,7 +1449,7 @@ class SymExec:
             yield st2.but(events=st2.events + (self._ev(st2, "def", nid, s),))
             return
         if isinstance(s, ast.Assign):
-            e = self.subst(s.value, st.env, st.chains)
+            e, st = self._pre(s.value, st, nid, s)
             for v, f in self.value(e, st.facts):
                 st2 = st.but(facts=f)
                 for t in s.targets:
@@ -985,7 +1460,7 @@ class SymExec:
             if s.value is None:
                 yield st
                 return
-            e = self.subst(s.value, st.env, st.chains)
+            e, st = self._pre(s.value, st, nid, s)
             for v, f in self.value(e, st.facts):
                 yield self._bind(nid, s, s.target, v, st.but(facts=f), raw=s.value)
             return
@@ -997,10 +1472,14 @@ class SymExec:
                 yield self._bind(nid, s, s.target, v, st.but(facts=f), raw=s.value)
             return
         if isinstance(s, ast.Expr):
-            e = self.subst(s.value, st.env, st.chains)
+            e, st = self._pre(s.value, st, nid, s)
             for v, f in self.value(e, st.facts):
                 st2 = st.but(facts=f)
-                yield st2.but(events=st2.events + (self._ev(st2, "expr", nid, s, value=v, raw=s.value),))
+                st2 = st2.but(events=st2.events + (self._ev(st2, "expr", nid, s, value=v, raw=s.value),))
+                # attribute stores spelled as calls: setattr(x, "a", v), vars(x).update(a=v), x.__dict__.update(a=v)
+                for obj, name, val in _attr_stores(v):
+                    st2 = self._bind(nid, s, ast.Attribute(value=obj, attr=name, ctx=ast.Store()), val, st2, raw=None)
+                yield st2
             return
         if isinstance(s, ast.Delete):
             st2 = st
@@ -1038,7 +1517,7 @@ class SymExec:
             if isinstance(v, (ast.Tuple, ast.List)) and len(v.elts) == len(elts) and not any(isinstance(x, ast.Starred) for x in list(v.elts) + list(elts)):
                 vals = list(v.elts)
             else:
-                vals = [ast.Subscript(value=v, slice=ast.Constant(value=i), ctx=ast.Load()) for i in range(len(elts))]
+                vals = [self.subst(ast.Subscript(value=v, slice=ast.Constant(value=i), ctx=ast.Load()), {}) for i in range(len(elts))]
                 if any(isinstance(x, ast.Starred) for x in elts):
                     vals = [ast.Name(id="<unpacked@%d_%d>" % (nid, i), ctx=ast.Load()) for i in range(len(elts))]
             first = True
@@ -1078,8 +1557,45 @@ class SymExec:
                 continue
             sites = [n for n in _walk_values(ev.raw) if isinstance(n, ast.Call)]
             sites.sort(key=lambda n: (getattr(n, "end_lineno", 0), getattr(n, "end_col_offset", 0)))
+            taken = None
             for cl in sites:
-                yield ev, cl, self.subst(cl, ev.env, ev.chains)
+                r = self.subst(cl, ev.env, ev.chains)
+                if not isinstance(r, ast.Call):
+                    continue  # a constant callable applied: attrgetter("a")(x) is x.a
+                if not free_of_forks(r.func) and isinstance(ev.value, ast.AST):
+                    # `(f if c else g)(...)`: the callee this path has chosen (the event's value is fork free)
+                    if taken is None:
+                        taken = {(getattr(n, "lineno", None), getattr(n, "col_offset", None), getattr(n, "end_col_offset", None)): n for n in _walk_values(ev.value) if isinstance(n, ast.Call)}
+                    r = taken.get((getattr(cl, "lineno", None), getattr(cl, "col_offset", None), getattr(cl, "end_col_offset", None)), r)
+                yield ev, cl, r
+
+
+def _sx_unfollowed(self, path):
+    """Calls on the path to functions of the program that are not part of the confirmed tree (helpers introduced by a
+    clean-up) and have effects, which neither the canonicalisation nor this executor has looked into: what they
+    store / raise / call is missing from the path, so an obligation that fails on it proves nothing."""
+    out = set()
+    self._defs_now = path.defs
+    for ev, c, r in self.calls(path):
+        try:
+            cal = self._callee(r)
+        except Exception:
+            cal = None
+        if cal is None:
+            continue
+        node = cal[0]
+        qn = None
+        for q, f in self.prog.funcs.items():
+            if f.node is node:
+                qn = q
+                break
+        if qn is None or qn in baseline() or self._pure_body(node) or qn in self.followed:
+            continue
+        out.add(qn)
+    return out
+
+
+SymExec.unfollowed = _sx_unfollowed
 
 
 class _FakeFI:
@@ -1096,6 +1612,25 @@ class _FakeFI:
 
 def _as_load(t):
     return t
+
+
+def _attr_stores(v):
+    """[(object expr, attribute name, value expr)] for an expression statement that only stores attributes"""
+    if not isinstance(v, ast.Call) or any(isinstance(a, ast.Starred) for a in v.args) or any(k.arg is None for k in v.keywords):
+        return []
+    fn = chain(v.func)
+    if fn in ("setattr", "object.__setattr__") and len(v.args) == 3 and not v.keywords and isinstance(v.args[1], ast.Constant) and isinstance(v.args[1].value, str) and v.args[1].value.isidentifier():
+        return [(v.args[0], v.args[1].value, v.args[2])]
+    if isinstance(v.func, ast.Attribute) and v.func.attr == "update" and not v.args and v.keywords:
+        d = v.func.value
+        obj = None
+        if isinstance(d, ast.Call) and chain(d.func) == "vars" and len(d.args) == 1 and not d.keywords:
+            obj = d.args[0]
+        elif isinstance(d, ast.Attribute) and d.attr == "__dict__":
+            obj = d.value
+        if obj is not None:
+            return [(obj, k.arg, k.value) for k in v.keywords]
+    return []
 
 
 def _rename_target(t, fresh):
@@ -1155,3 +1690,2546 @@ def callable_body(sx, path, e, ev):
     if isinstance(e, ast.Attribute):
         return ast.Call(func=e, args=[], keywords=[])
     return None
+
+
+# =====================================================================================================================
+# Call-shape flow analysis: which statements / expression arms of a callee are dead under ONE call shape
+# =====================================================================================================================
+#
+# `KwFlow(prog, fi, shape).run()` abstractly executes the body of ONE function for one call shape of the escape
+# analysis (exc.EscapeAnalysis.shape_for: parameter -> constant / present, `**kwargs` -> set of keyword names) and
+# reports the statements, conditional-expression arms and boolean operands that are executed under NO run with that
+# shape.  `ShapedEscapes` (below) is an EscapeAnalysis that skips them -- the *meaning* of "this keyword was (not)
+# passed", however it is asked:
+#
+#     "k" in kw / "k" not in kw / kw.__contains__("k") / "k" in kw.keys()        membership
+#     kw["k"], kw.pop("k"), del kw["k"]  (KeyError when absent: in try/except/else, or ending the block)
+#     kw.get("k"[, d]), kw.pop("k", d), kw.setdefault("k", d)  followed by a test of the value against None / a
+#         private sentinel object (module-level or local `object()`) / its truth, through locals and walrus
+#     bool(kw), len(kw), iteration over an empty kw
+#     the same through local aliases and copies (`rest = kw`, `dict(kw)`, `kw.copy()`, `{**kw}`), through nested
+#     helper functions / lambdas that close over kw (evaluated in place), through loops over literal tables
+#     (unrolled), named booleans, De Morgan forms, early returns.
+#
+# Abstract domain.  A value is a constant, a unique object (`object()` sentinel), a tracked dictionary reference, a
+# tuple of values, a local function, or TOP.  A tracked dictionary is (must, may, vals): keys that are certainly
+# present, keys that are possibly present (None = unknown), and the value per key.  Everything outside this vocabulary
+# evaluates to TOP, a dictionary that is handed to code the analysis does not follow ("escapes") loses all knowledge,
+# an unknown condition executes both arms (with the membership fact refined per arm) and joins, loops over literal
+# tables are unrolled and other loops iterated to a fixed point.  The result therefore over-approximates the set of
+# executed nodes: a node reported dead is dead on every concrete run with that call shape (soundness argument: every
+# transfer function below keeps `must` a subset of the concrete key set and `may` a superset, and never decides a
+# test whose operands are not constants / sentinels / tracked key sets).  On any internal error or budget overrun the
+# analysis reports nothing dead (the engine's native behaviour).
+
+TOP = ("top",)
+NN = ("nn",)  # an unknown value that is certainly not None (a slice, a sum, a formatted string, ...)
+
+
+def K(v):
+    return ("const", type(v).__name__, v)
+
+
+def _is_const(a):
+    return a[0] == "const"
+
+
+class _D:
+    """abstract dictionary"""
+
+    __slots__ = ("must", "may", "vals", "esc")
+
+    def __init__(self, must=frozenset(), may=frozenset(), vals=None, esc=False):
+        self.must, self.may, self.vals, self.esc = must, may, vals or {}, esc
+
+    def key(self):
+        return (self.must, self.may, tuple(sorted(self.vals.items(), key=repr)), self.esc)
+
+    def __eq__(self, o):
+        return isinstance(o, _D) and self.key() == o.key()
+
+    def has(self, k):
+        """True / False / None"""
+        if self.esc:
+            return None
+        if k in self.must:
+            return True
+        if self.may is not None and k not in self.may:
+            return False
+        return None
+
+    def val(self, k):
+        return self.vals.get(k, TOP) if not self.esc else TOP
+
+    def without(self, k):
+        if self.esc:
+            return self
+        return _D(self.must - {k}, None if self.may is None else self.may - {k}, {a: b for a, b in self.vals.items() if a != k})
+
+    def without_unknown(self):
+        """some key (unknown which) may have been removed"""
+        if self.esc:
+            return self
+        return _D(frozenset(), self.may, dict(self.vals))
+
+    def with_key(self, k, v, weak=False):
+        """d[k] = v (weak: only if k was absent: setdefault)"""
+        if self.esc:
+            return self
+        vals = dict(self.vals)
+        if weak and self.has(k) is not False:
+            vals[k] = v if (self.has(k) is None and self.vals.get(k, v) == v) else (self.val(k) if self.has(k) else TOP)
+        else:
+            vals[k] = v
+        return _D(self.must | {k}, None if self.may is None else self.may | {k}, vals)
+
+    def with_unknown_key(self):
+        if self.esc:
+            return self
+        return _D(self.must, None, {})
+
+    def escaped(self):
+        return _D(frozenset(), None, {}, True)
+
+    @staticmethod
+    def join(a, b):
+        if a.esc or b.esc:
+            return a.escaped()
+        may = None if (a.may is None or b.may is None) else (a.may | b.may)
+        vals = {}
+        for k in set(a.vals) | set(b.vals):
+            va, vb = a.vals.get(k, None), b.vals.get(k, None)
+            if va is not None and vb is not None:
+                vals[k] = va if va == vb else TOP
+            else:
+                # present in one only: the key's value where it exists (absent on the other side)
+                vals[k] = va if va is not None else vb
+                if (a if va is None else b).has(k) is not False:
+                    vals[k] = TOP
+        return _D(a.must & b.must, may, vals)
+
+
+class _St:
+    __slots__ = ("env", "heap")
+
+    def __init__(self, env, heap):
+        self.env, self.heap = env, heap
+
+    def copy(self):
+        return _St(dict(self.env), dict(self.heap))
+
+    def __eq__(self, o):
+        return isinstance(o, _St) and self.env == o.env and self.heap == o.heap
+
+
+class _Out:
+    __slots__ = ("next", "ret", "brk", "cont", "exc")
+
+    def __init__(self):
+        self.next = self.ret = self.brk = self.cont = self.exc = None
+
+
+class _AbsRaise(Exception):
+    """the evaluated expression certainly raises `name` in state `st`"""
+
+    def __init__(self, name, st):
+        Exception.__init__(self, name)
+        self.name, self.st = name, st
+
+
+class _Abort(Exception):
+    pass
+
+
+_READ_METHODS = {"get", "keys", "items", "values", "copy", "__contains__", "__getitem__", "__len__", "__iter__"}
+_PURE_BUILTINS = {
+    "len", "bool", "isinstance", "issubclass", "type", "id", "repr", "str", "bytes", "int", "float", "print", "hasattr", "callable",
+    "list", "tuple", "sorted", "set", "frozenset", "iter", "min", "max", "any", "all", "enumerate", "zip", "reversed", "sum", "format", "hash", "abs", "range", "object",
+}
+_MUTATING = {
+    "add", "discard", "remove", "update", "clear", "pop", "append", "extend", "insert", "sort", "reverse", "setdefault", "popitem",
+    "intersection_update", "difference_update", "symmetric_difference_update", "__setitem__", "__delitem__", "__iadd__", "__ior__",
+}
+_CATCH_ALL = {"Exception", "BaseException"}
+_EXC_PARENTS = {"KeyError": {"KeyError", "LookupError"}, "IndexError": {"IndexError", "LookupError"}}
+
+
+class KwFlow:
+    MAX_STEPS = 6000
+    MAX_DEPTH = 3
+    MAX_UNROLL = 24
+
+    def __init__(self, prog, fi, shape):
+        self.prog, self.fi = prog, fi
+        self.shape = dict(shape or ())
+        self.live = set()
+        self.cand = set()  # conditional-expression arms / boolean operands whose liveness was decided by evaluation
+        self.raised = {}  # id(stmt) -> exception name (certain raises)
+        self.completed = set()  # id(stmt) that completed normally at least once
+        self.steps = 0
+        self.depth = 0
+        self.frames = []  # saved caller environments of the functions evaluated in place
+        self.acc = []  # per enclosing try / with: [frame depth, joined state at the points an exception may arise]
+        self.funcs = {}
+        self.notes = []
+        self.callinfo = {}  # id(call node) -> what the call passes (joined over its evaluations at depth 0)
+        self._modvals = {}
+        self._plain = {}
+        a0 = getattr(fi.node, "args", None)
+        first = (a0.posonlyargs + a0.args)[:1] if a0 is not None else []
+        is_method = getattr(fi, "cls", None) is not None and not any(ast.unparse(d) in ("staticmethod", "classmethod") for d in getattr(fi.node, "decorator_list", []))
+        self.selfname = first[0].arg if (first and is_method) else None
+        node = fi.node
+        self.locals = set()
+        self.untracked = set()
+        self.parents = {}
+        if not isinstance(node, ast.Lambda):
+            for n in ast.walk(node):
+                for c in ast.iter_child_nodes(n):
+                    self.parents[id(c)] = n
+                if isinstance(n, ast.Name) and isinstance(n.ctx, (ast.Store, ast.Del)):
+                    self.locals.add(n.id)
+                elif isinstance(n, (ast.Global, ast.Nonlocal)):
+                    self.untracked |= set(n.names)
+                elif isinstance(n, (ast.FunctionDef, ast.AsyncFunctionDef, ast.ClassDef)) and n is not node:
+                    self.locals.add(n.name)
+                elif isinstance(n, ast.ExceptHandler) and n.name:
+                    self.locals.add(n.name)
+                elif isinstance(n, (ast.Import, ast.ImportFrom)):
+                    for a in n.names:
+                        self.locals.add((a.asname or a.name).split(".")[0])
+                elif isinstance(n, ast.arg):
+                    self.locals.add(n.arg)
+
+    # ------------------------------------------------------------------ entry
+    def decidable(self):
+        return bool(self.shape)
+
+    def run(self):
+        """-> (dead node ids, {id(stmt): exception name certainly raised}) or None"""
+        node = self.fi.node
+        if isinstance(node, ast.Lambda) or not self.decidable():
+            return None
+        for n in ast.walk(node):
+            if isinstance(n, (ast.Yield, ast.YieldFrom)) and self._owner(n) is node:
+                return None
+        a = node.args
+        env = {}
+        heap = {}
+        for p in a.posonlyargs + a.args + a.kwonlyargs:
+            t = self.shape.get(p.arg)
+            env[p.arg] = self._from_tag(t)
+        if a.vararg:
+            env[a.vararg.arg] = TOP
+        if a.kwarg:
+            t = self.shape.get("**" + a.kwarg.arg)
+            if t and t[0] in ("keys", "maykeys"):
+                keys = frozenset(t[1])
+                vals = {k: self._from_tag(self.shape.get(k)) for k in keys}
+                heap["kw"] = _D(keys if t[0] == "keys" else frozenset(), keys, vals)
+                env[a.kwarg.arg] = ("ref", "kw")
+            else:
+                env[a.kwarg.arg] = TOP
+        st = _St(env, heap)
+        try:
+            self.block(node.body, st)
+        except _Abort as e:
+            self.notes.append("aborted: %s" % e)
+            return None
+        except _AbsRaise:
+            pass
+        universe = set()
+        for n in _walk_own(node):
+            if isinstance(n, ast.stmt) and n is not node:
+                universe.add(id(n))
+        dead = (universe | self.cand) - self.live
+        certain = {i: name for i, name in self.raised.items() if i not in self.completed}
+        return dead, certain, self.callinfo
+
+    def _owner(self, n):
+        p = self.parents.get(id(n))
+        while p is not None and not isinstance(p, (ast.FunctionDef, ast.AsyncFunctionDef, ast.Lambda)):
+            p = self.parents.get(id(p))
+        return p
+
+    @staticmethod
+    def _from_tag(t):
+        if t and t[0] == "nn":
+            return NN
+        if t and t[0] == "const":
+            v = t[1]
+            if v is None or isinstance(v, (bool, int, str, bytes, float)):
+                return K(v)
+        return TOP
+
+    # ------------------------------------------------------------------ states
+    @staticmethod
+    def _not_none(v):
+        return v[0] in ("nn", "obj", "tuple", "list", "keyset", "ref", "view", "func") or (v[0] == "const" and v[2] is not None)
+
+    def join_val(self, a, b, sa, sb):
+        if a == b:
+            return a
+        if self._not_none(a) and self._not_none(b) and all(self._storable(x) for x in (a, b)):
+            return NN
+        for v, s in ((a, sa), (b, sb)):
+            self.escape_val(v, s)
+        return TOP
+
+    def join(self, a, b):
+        if a is None:
+            return b
+        if b is None:
+            return a
+        if a is b:
+            return a
+        a, b = a.copy(), b.copy()
+        env = {}
+        for k in set(a.env) | set(b.env):
+            if k in a.env and k in b.env:
+                env[k] = self.join_val(a.env[k], b.env[k], a, b)
+            else:
+                # bound on one side only: unknown (reading it where unbound raises; liveness is over-approximated)
+                self.escape_val(a.env.get(k, TOP), a)
+                self.escape_val(b.env.get(k, TOP), b)
+                env[k] = TOP
+        heap = {}
+        for o in set(a.heap) | set(b.heap):
+            if o in a.heap and o in b.heap:
+                heap[o] = _D.join(a.heap[o], b.heap[o])
+            else:
+                heap[o] = (a.heap.get(o) or b.heap.get(o))
+        return _St(env, heap)
+
+    def escape_val(self, v, st):
+        """the value is handed to code the analysis does not follow"""
+        if v[0] == "ref":
+            d = st.heap.get(v[1])
+            if d is not None and not d.esc:
+                st.heap[v[1]] = d.escaped()
+        elif v[0] == "view":
+            self.escape_val(("ref", v[1]), st)
+        elif v[0] == "tuple":
+            for x in v[1]:
+                self.escape_val(x, st)
+        elif v[0] == "list" or (v[0] == "keyset" and not v[3]):
+            # a mutable list / set the analysis holds a snapshot of: whoever receives it may change it
+            self.havoc_mutables(st)
+            if v[0] == "list":
+                for x in v[1]:
+                    self.escape_val(x, st)
+        elif v[0] == "func":
+            node = self.funcs[v[1]]
+            for n in ast.walk(node):
+                if isinstance(n, ast.Name) and st.env.get(n.id, TOP)[0] in ("ref", "view") and not self._readonly_use(n):
+                    self.escape_val(st.env[n.id], st)
+
+    @staticmethod
+    def havoc_mutables(st):
+        for k, x in list(st.env.items()):
+            if x[0] == "list" or (x[0] == "keyset" and not x[3]):
+                st.env[k] = TOP
+
+    @staticmethod
+    def _storable(v):
+        """values kept inside tracked dictionaries / tuples: immutable ones"""
+        return v[0] in ("const", "obj", "top", "nn") or (v[0] == "keyset" and v[3]) or (v[0] == "tuple" and all(KwFlow._storable(x) for x in v[1]))
+
+    def to_keyset(self, v, st):
+        """(must, may) of a set-like value, or None"""
+        if v[0] == "keyset":
+            return v[1], v[2]
+        if v[0] == "ref" or (v[0] == "view" and v[2] == "keys"):
+            d = st.heap.get(v[1])
+            if d is not None and not d.esc:
+                return d.must, d.may
+            return frozenset(), None
+        if v[0] in ("tuple", "list"):
+            ks = set()
+            for x in v[1]:
+                if not self._hkey(x):
+                    return None
+                ks.add(x[2])
+            return frozenset(ks), frozenset(ks)
+        return None
+
+    def _readonly_use(self, name_node):
+        """the occurrence of a dictionary name only reads it"""
+        p = self.parents.get(id(name_node))
+        if isinstance(p, ast.Attribute) and p.value is name_node and p.attr in _READ_METHODS:
+            g = self.parents.get(id(p))
+            return isinstance(g, ast.Call) and g.func is p
+        if isinstance(p, ast.Subscript) and p.value is name_node and isinstance(p.ctx, ast.Load):
+            return True
+        if isinstance(p, ast.Compare) and name_node in p.comparators and all(isinstance(o, (ast.In, ast.NotIn)) for o in p.ops):
+            return True
+        if isinstance(p, ast.comprehension) and p.iter is name_node:
+            return True
+        if isinstance(p, (ast.For, ast.AsyncFor)) and p.iter is name_node:
+            return True
+        if isinstance(p, ast.keyword) and p.arg is None:
+            return True
+        if isinstance(p, ast.Call) and isinstance(p.func, ast.Name) and p.func.id in _PURE_BUILTINS | {"dict"} and name_node in p.args:
+            return True
+        return False
+
+    def escape_mentions(self, node, st):
+        """a construct that is not evaluated (comprehension, class body, unsupported statement): dictionaries it may modify escape"""
+        for n in ast.walk(node):
+            if isinstance(n, ast.Name) and n.id in st.env and st.env[n.id][0] in ("ref", "view", "func", "tuple") and not self._readonly_use(n):
+                self.escape_val(st.env[n.id], st)
+
+    def note_exc(self, st):
+        if not self.acc or st is None:
+            return
+        ent = self.acc[-1]
+        if self.depth > ent[0]:
+            st = _St(dict(self.frames[ent[0]]), dict(st.heap))
+            for k in self.untracked:
+                st.env.pop(k, None)
+        ent[1] = self.join(ent[1], st.copy())
+
+    def tick(self):
+        self.steps += 1
+        if self.steps > self.MAX_STEPS:
+            raise _Abort("step budget")
+
+    # ------------------------------------------------------------------ truth
+    def truth(self, v, st):
+        if v[0] == "const":
+            return bool(v[2])
+        if v[0] == "func":
+            return True
+        if v[0] == "obj":
+            return True if v[2] else None  # an instance of a program class may define __bool__ / __len__
+        if v[0] in ("tuple", "list"):
+            return bool(v[1])
+        if v[0] == "keyset":
+            if v[1]:
+                return True
+            if v[2] is not None and not v[2]:
+                return False
+            return None
+        if v[0] in ("ref", "view"):
+            d = st.heap.get(v[1])
+            if d is None or d.esc:
+                return None
+            if d.must:
+                return True
+            if d.may is not None and not d.may:
+                return False
+        return None
+
+    @staticmethod
+    def _identical(a, b):
+        """a is b: True / False / None"""
+        if (a[0] == "nn" and _is_const(b) and b[2] is None) or (b[0] == "nn" and _is_const(a) and a[2] is None):
+            return False
+        if a[0] == "nn" or b[0] == "nn":
+            return None
+        if a[0] == "obj" or b[0] == "obj":
+            if a[0] == "obj" and b[0] == "obj":
+                return a[1] == b[1]
+            if a[0] == "top" or b[0] == "top":
+                return None
+            return False
+        if _is_const(a) and _is_const(b):
+            va, vb = a[2], b[2]
+            if va is None or vb is None or isinstance(va, bool) or isinstance(vb, bool):
+                return va is vb
+            if a[1] != b[1] or va != vb:
+                return False
+            return None  # equal immutable values: identity is an implementation detail
+        if {a[0], b[0]} <= {"const", "ref", "tuple", "list", "keyset", "view", "func"} and a[0] != b[0]:
+            if _is_const(a) and a[2] is None or _is_const(b) and b[2] is None:
+                return False
+        return None
+
+    @staticmethod
+    def _equal(a, b):
+        if (a[0] == "nn" and _is_const(b) and b[2] is None) or (b[0] == "nn" and _is_const(a) and a[2] is None):
+            return False  # None compares equal to None only (no class of the program overrides __eq__ to claim otherwise for bytes / numbers / strings)
+        if a[0] == "nn" or b[0] == "nn":
+            return None
+        if a[0] == "obj" or b[0] == "obj":
+            # only the plain `object()` is known to compare by identity
+            if a[0] == "obj" and b[0] == "obj":
+                return (a[1] == b[1]) if (a[2] and b[2]) else (True if a[1] == b[1] and a[2] else None)
+            o, x = (a, b) if a[0] == "obj" else (b, a)
+            if o[2] and x[0] == "const":
+                return False
+            return None
+        if _is_const(a) and _is_const(b):
+            try:
+                return bool(a[2] == b[2])
+            except Exception:
+                return None
+        if (_is_const(a) and a[2] is None and b[0] in ("ref", "tuple", "list", "keyset", "func")) or (_is_const(b) and b[2] is None and a[0] in ("ref", "tuple", "list", "keyset", "func")):
+            return False
+        return None
+
+    def contains(self, item, cont, st):
+        """item in cont: True / False / None"""
+        if cont[0] in ("ref", "view"):
+            if cont[0] == "view" and cont[2] != "keys":
+                return None
+            d = st.heap.get(cont[1])
+            if d is None:
+                return None
+            if d.may is not None and not d.may and not d.esc:
+                return False
+            if _is_const(item):
+                try:
+                    hash(item[2])
+                except TypeError:
+                    return None
+                return d.has(item[2])
+            return None
+        if cont[0] == "keyset":
+            if cont[2] is not None and not cont[2]:
+                return False
+            if _is_const(item):
+                try:
+                    hash(item[2])
+                except TypeError:
+                    return None
+                if item[2] in cont[1]:
+                    return True
+                if cont[2] is not None and item[2] not in cont[2]:
+                    return False
+            return None
+        if cont[0] in ("tuple", "list"):
+            res = False
+            for x in cont[1]:
+                e = self._equal(item, x)
+                if e is True:
+                    return True
+                if e is None:
+                    res = None
+            return res
+        if _is_const(cont) and isinstance(cont[2], (str, bytes)) and _is_const(item) and type(item[2]) is type(cont[2]):
+            return item[2] in cont[2]
+        return None
+
+    # ------------------------------------------------------------------ expressions
+    def ev(self, e, st):
+        self.tick()
+        m = getattr(self, "ev_" + type(e).__name__, None)
+        if m is not None:
+            return m(e, st)
+        if isinstance(e, (ast.Yield, ast.YieldFrom)):
+            raise _Abort("generator")
+        for c in ast.iter_child_nodes(e):
+            if isinstance(c, ast.expr):
+                self.escape_val(self.ev(c, st), st)
+        return TOP
+
+    def ev_Constant(self, e, st):
+        v = e.value
+        if v is None or isinstance(v, (bool, int, str, bytes, float)):
+            return K(v)
+        return TOP
+
+    def ev_Name(self, e, st):
+        if e.id in self.untracked:
+            return TOP
+        if e.id in st.env:
+            return st.env[e.id]
+        if e.id in self.locals or self.depth and any(e.id in f for f in self.frames):
+            return TOP
+        return self.module_value(e.id)
+
+    def module_value(self, name):
+        if name not in self._modvals:
+            self._modvals[name] = self._module_value(name)
+        return self._modvals[name]
+
+    def _module_value(self, name):
+        mod = self.fi.module
+        found = []
+        for s in ast.walk(mod.tree):
+            if isinstance(s, ast.Global) and name in s.names:
+                return TOP
+        for s in mod.tree.body:
+            tg = []
+            if isinstance(s, ast.Assign):
+                tg = [(t, s.value) for t in s.targets]
+            elif isinstance(s, ast.AnnAssign) and s.value is not None:
+                tg = [(s.target, s.value)]
+            elif isinstance(s, (ast.AugAssign, ast.For, ast.With, ast.If, ast.Try, ast.While, ast.FunctionDef, ast.ClassDef, ast.AsyncFunctionDef, ast.Import, ast.ImportFrom)):
+                for n in ast.walk(s):
+                    if isinstance(n, ast.Name) and n.id == name and isinstance(n.ctx, (ast.Store, ast.Del)):
+                        return TOP
+                    if isinstance(n, ast.alias) and (n.asname or n.name).split(".")[0] == name:
+                        return TOP
+                    if isinstance(n, (ast.FunctionDef, ast.ClassDef, ast.AsyncFunctionDef)) and n.name == name and n in mod.tree.body:
+                        return TOP
+                continue
+            for t, v in tg:
+                for n in ast.walk(t):
+                    if isinstance(n, ast.Name) and n.id == name:
+                        found.append((t, v))
+        if len(found) != 1 or not isinstance(found[0][0], ast.Name):
+            return TOP
+        return self.static_value(found[0][1], "%s.%s" % (mod.name, name))
+
+    def static_value(self, v, tag):
+        if isinstance(v, ast.Constant):
+            return self.ev_Constant(v, None)
+        if isinstance(v, ast.Call) and isinstance(v.func, ast.Name) and v.func.id == "object" and not v.args and not v.keywords:
+            return ("obj", tag, True)
+        if isinstance(v, ast.Call) and chain(v.func):
+            # an instance of a class of the program created once at import time: a unique, non-None object
+            try:
+                q = self.prog.resolve_in_module(self.fi.module, chain(v.func))
+            except Exception:
+                q = None
+            if q in self.prog.classes:
+                return ("obj", tag, False)
+            if chain(v.func) in ("frozenset", "set") and len(v.args) == 1 and not v.keywords and isinstance(v.args[0], (ast.Tuple, ast.List, ast.Set)):
+                ks = self._const_elts(v.args[0])
+                if ks is not None and (chain(v.func) == "frozenset" or not self._module_mutates(tag.split(".")[-1])):
+                    return ("keyset", ks, ks, True)
+            return TOP
+        if isinstance(v, ast.Set):
+            ks = self._const_elts(v)
+            if ks is not None and not self._module_mutates(tag.split(".")[-1]):
+                return ("keyset", ks, ks, True)
+            return TOP
+        if isinstance(v, ast.Tuple) and not any(isinstance(x, ast.Starred) for x in v.elts):
+            return ("tuple", tuple(self.static_value(x, "%s[%d]" % (tag, i)) if isinstance(x, (ast.Constant, ast.Tuple)) else TOP for i, x in enumerate(v.elts)))
+        return TOP
+
+    @staticmethod
+    def _const_elts(node):
+        ks = set()
+        for x in node.elts:
+            if not (isinstance(x, ast.Constant) and isinstance(x.value, (str, int, bytes)) and not isinstance(x.value, bool)):
+                return None
+            ks.add(x.value)
+        return frozenset(ks)
+
+    def _module_mutates(self, name):
+        """the module calls a mutating method on / augments the module-level collection `name`"""
+        for n in ast.walk(self.fi.module.tree):
+            if isinstance(n, ast.Attribute) and isinstance(n.value, ast.Name) and n.value.id == name and n.attr in _MUTATING:
+                return True
+            if isinstance(n, ast.AugAssign) and isinstance(n.target, ast.Name) and n.target.id == name:
+                return True
+        return False
+
+    def ev_NamedExpr(self, e, st):
+        v = self.ev(e.value, st)
+        self.assign(e.target, v, st)
+        return v
+
+    def ev_Tuple(self, e, st):
+        if any(isinstance(x, ast.Starred) for x in e.elts):
+            for x in e.elts:
+                self.escape_val(self.ev(x.value if isinstance(x, ast.Starred) else x, st), st)
+            return TOP
+        return ("tuple", tuple(self._elt(self.ev(x, st), st) for x in e.elts))
+
+    def _elt(self, v, st):
+        """element of a tracked tuple / list: only immutable values are kept"""
+        if self._storable(v) or v[0] == "func":
+            return v
+        self.escape_val(v, st)
+        return TOP
+
+    def ev_List(self, e, st):
+        if any(isinstance(x, ast.Starred) for x in e.elts):
+            for x in e.elts:
+                self.escape_val(self.ev(x.value if isinstance(x, ast.Starred) else x, st), st)
+            return TOP
+        # a snapshot: forgotten as soon as the list may be modified (mutating method, handed to unknown code)
+        return ("list", tuple(self._elt(self.ev(x, st), st) for x in e.elts))
+
+    def ev_Set(self, e, st):
+        vals = [self.ev(x.value if isinstance(x, ast.Starred) else x, st) for x in e.elts]
+        if not any(isinstance(x, ast.Starred) for x in e.elts) and all(self._hkey(v) for v in vals):
+            ks = frozenset(v[2] for v in vals)
+            return ("keyset", ks, ks, False)
+        for v in vals:
+            self.escape_val(v, st)
+        return TOP
+
+    def ev_Dict(self, e, st):
+        d = _D()
+        ok = True
+        for k, v in zip(e.keys, e.values):
+            if k is None:
+                src = self.ev(v, st)
+                sd = st.heap.get(src[1]) if src[0] == "ref" else None
+                if sd is None or sd.esc:
+                    self.escape_val(src, st)
+                    ok = False
+                    continue
+                for kk in (sd.may if sd.may is not None else ()):
+                    if sd.has(kk):
+                        d = d.with_key(kk, sd.val(kk))
+                    else:
+                        d = _D.join(d, d.with_key(kk, sd.val(kk)))
+                if sd.may is None:
+                    d = d.with_unknown_key()
+                continue
+            kv = self.ev(k, st)
+            vv = self.ev(v, st)
+            if not self._storable(vv):
+                self.escape_val(vv, st)
+                vv = TOP
+            if _is_const(kv) and isinstance(kv[2], (str, int, bytes)) :
+                d = d.with_key(kv[2], vv)
+            else:
+                d = d.with_unknown_key()
+        oid = "dict@%d" % id(e)
+        if oid in st.heap or not ok:
+            d = d.escaped()
+        st.heap[oid] = d
+        return ("ref", oid)
+
+    # -- comprehensions
+    _CONSUMERS = {"tuple", "list", "dict", "set", "frozenset", "sorted", "any", "all", "sum", "min", "max", "next"}
+
+    def _consumed_at_once(self, e):
+        """a generator expression whose elements are all produced where it is written"""
+        p = self.parents.get(id(e))
+        if isinstance(p, ast.Call) and e in p.args and (isinstance(p.func, ast.Name) and p.func.id in self._CONSUMERS or isinstance(p.func, ast.Attribute) and p.func.attr == "join"):
+            return True
+        if isinstance(p, ast.Starred):
+            return True
+        if isinstance(p, ast.Assign) and p.value is e and all(isinstance(t, (ast.Tuple, ast.List)) for t in p.targets):
+            return True
+        if isinstance(p, (ast.For, ast.comprehension)) and p.iter is e:
+            return True
+        return False
+
+    def _comp_pure(self, e, st):
+        """nothing in the comprehension can change tracked state"""
+        for n in ast.walk(e):
+            if isinstance(n, (ast.NamedExpr, ast.Await, ast.Yield, ast.YieldFrom)):
+                return False
+            if isinstance(n, ast.Name) and n.id in st.env and st.env[n.id][0] in ("ref", "view", "func", "list", "keyset") and not self._readonly_use(n):
+                if st.env[n.id][0] in ("list", "keyset") and isinstance(n.ctx, ast.Load):
+                    p = self.parents.get(id(n))
+                    if not (isinstance(p, ast.Attribute) and p.attr in _MUTATING):
+                        continue
+                return False
+        return True
+
+    def _comp_elems(self, it, st, pure):
+        """[(certain, element)] produced by iterating `it`, or None.  An unordered source is enumerated only for a
+        comprehension that cannot change state (the order is then immaterial)."""
+        if it[0] in ("tuple", "list"):
+            return [(True, x) for x in it[1]]
+        if not pure:
+            return None
+        if it[0] in ("ref", "view"):
+            d = st.heap.get(it[1])
+            if d is None or d.esc or d.may is None:
+                return None
+            kind = it[2] if it[0] == "view" else "keys"
+            out = []
+            for k in sorted(d.may, key=repr):
+                kv = K(k)
+                el = kv if kind == "keys" else (d.val(k) if kind == "values" else ("tuple", (kv, d.val(k))))
+                out.append((d.has(k) is True, el))
+            return out
+        if it[0] == "keyset":
+            if it[2] is None:
+                return None
+            return [(k in it[1], K(k)) for k in sorted(it[2], key=repr)]
+        return None
+
+    def _comp(self, e, st):
+        lazy = isinstance(e, ast.GeneratorExp) and not self._consumed_at_once(e)
+        pure = self._comp_pure(e, st)
+        gens = e.generators
+        if lazy or any(g.is_async for g in gens) or len(gens) > 2:
+            it = self.ev(gens[0].iter, st)
+            self.escape_mentions(e, st)
+            self.escape_val(it, st) if it[0] == "func" else None
+            return TOP
+        bound = set()
+        for g in gens:
+            for n in ast.walk(g.target):
+                if isinstance(n, ast.Name):
+                    bound.add(n.id)
+        saved = {k: st.env[k] for k in bound if k in st.env}
+        results = []  # (certain, key value or None, value)
+
+        class _GiveUp(Exception):
+            pass
+
+        def run(gi, certain):
+            if gi == len(gens):
+                self.tick()
+                if isinstance(e, ast.DictComp):
+                    results.append((certain, self.ev(e.key, st), self.ev(e.value, st)))
+                else:
+                    results.append((certain, None, self.ev(e.elt, st)))
+                return
+            g = gens[gi]
+            it = self.ev(g.iter, st)
+            elems = self._comp_elems(it, st, pure)
+            if elems is None or len(elems) > 4 * self.MAX_UNROLL:
+                raise _GiveUp()
+            for cert, el in elems:
+                self.assign(g.target, el, st)
+                c = certain and cert
+                skip = False
+                for cond in g.ifs:
+                    t = self.truth(self.ev(cond, st), st)
+                    if t is False:
+                        skip = True
+                        break
+                    if t is None:
+                        if not pure:
+                            raise _GiveUp()
+                        c = False
+                if not skip:
+                    if not c and not pure:
+                        raise _GiveUp()
+                    run(gi + 1, c)
+
+        snapshot = st.copy()
+        try:
+            run(0, True)
+        except _GiveUp:
+            st.env, st.heap = snapshot.env, snapshot.heap
+            self.ev(gens[0].iter, st)
+            self.escape_mentions(e, st)
+            return TOP
+        finally:
+            for k in bound:
+                st.env.pop(k, None)
+            st.env.update(saved)
+        if isinstance(e, ast.DictComp):
+            d = _D()
+            for cert, k, v in results:
+                if not self._storable(v):
+                    self.escape_val(v, st)
+                    v = TOP
+                if self._hkey(k):
+                    d = d.with_key(k[2], v) if cert else _D.join(d, d.with_key(k[2], v))
+                else:
+                    d = d.with_unknown_key()
+            oid = "comp@%d" % id(e)
+            if oid in st.heap:
+                d = d.escaped()
+            st.heap[oid] = d
+            return ("ref", oid)
+        if isinstance(e, ast.SetComp):
+            if all(self._hkey(v) for _c, _k, v in results):
+                return ("keyset", frozenset(v[2] for c, _k, v in results if c), frozenset(v[2] for _c, _k, v in results), False)
+            for _c, _k, v in results:
+                self.escape_val(v, st)
+            return TOP
+        if all(c for c, _k, _v in results):
+            return ("list" if isinstance(e, ast.ListComp) else "tuple", tuple(self._elt(v, st) for _c, _k, v in results))
+        for _c, _k, v in results:
+            self.escape_val(v, st)
+        return TOP
+
+    ev_ListComp = ev_SetComp = ev_DictComp = ev_GeneratorExp = _comp
+
+    def ev_Lambda(self, e, st):
+        self.funcs[id(e)] = e
+        return ("func", id(e))
+
+    def ev_Await(self, e, st):
+        if isinstance(e.value, ast.Call):
+            return self.ev_Call(e.value, st, awaited=True)
+        self.escape_val(self.ev(e.value, st), st)
+        if self.selfname is not None:
+            self.forget_self(st)  # other tasks run while this one waits
+        return TOP
+
+    def ev_Attribute(self, e, st):
+        if isinstance(e.value, ast.Name) and e.value.id == self.selfname and self.depth == 0 and ("." + e.attr) in st.env:
+            return st.env["." + e.attr]
+        v = self.ev(e.value, st)
+        # a bound method / attribute of a tracked value taken as a value
+        self.escape_val(v, st)
+        return TOP
+
+    def forget_self(self, st):
+        """the receiver was handed to code the analysis does not follow (or one of its methods runs): what was stored in
+        its attributes is no longer known"""
+        for k in [k for k in st.env if k.startswith(".")]:
+            del st.env[k]
+        st.env["<self escaped>"] = K(True)
+
+    def plain_attr(self, attr):
+        """`self.attr = v; ... self.attr` reads v back: no property / descriptor of that name in the class"""
+        cls = getattr(self.fi, "cls", None)
+        if cls is None:
+            f = getattr(self.fi, "parent", None)
+            while f is not None and cls is None:
+                cls = getattr(f, "cls", None)
+                f = getattr(f, "parent", None)
+        if cls is None or self.selfname is None:
+            return False
+        if attr not in self._plain:
+            ok = True
+            try:
+                for k in self.prog.mro(cls.qn):
+                    ci = self.prog.classes.get(k)
+                    if ci is None:
+                        if k not in ("object", "builtins.object"):
+                            ok = False
+                        continue
+                    if attr in ci.methods or attr in ci.attrs or "__setattr__" in ci.methods or "__getattribute__" in ci.methods or "__getattr__" in ci.methods or "__slots__" in ci.attrs and False:
+                        ok = False
+            except Exception:
+                ok = False
+            self._plain[attr] = ok
+        return self._plain[attr]
+
+    def ev_JoinedStr(self, e, st):
+        for c in e.values:
+            if isinstance(c, ast.FormattedValue):
+                self.escape_val(self.ev(c.value, st), st)
+        return NN
+
+    def ev_Starred(self, e, st):
+        self.ev(e.value, st)
+        return TOP
+
+    def ev_UnaryOp(self, e, st):
+        v = self.ev(e.operand, st)
+        if isinstance(e.op, ast.Not):
+            t = self.truth(v, st)
+            return TOP if t is None else K(not t)
+        if _is_const(v) and isinstance(v[2], (int, float)) and not isinstance(v[2], bool):
+            if isinstance(e.op, ast.USub):
+                return K(-v[2])
+            if isinstance(e.op, ast.UAdd):
+                return v
+        self.escape_val(v, st)
+        return TOP
+
+    def ev_BinOp(self, e, st):
+        l = self.ev(e.left, st)
+        r = self.ev(e.right, st)
+        if _is_const(l) and _is_const(r) and type(l[2]) is type(r[2]) and isinstance(l[2], (int, str, bytes)) and not isinstance(l[2], bool):
+            try:
+                if isinstance(e.op, ast.Add):
+                    return K(l[2] + r[2])
+                if isinstance(l[2], int):
+                    if isinstance(e.op, ast.Sub):
+                        return K(l[2] - r[2])
+                    if isinstance(e.op, ast.Mult) and abs(l[2]) < 2 ** 32 and abs(r[2]) < 2 ** 32:
+                        return K(l[2] * r[2])
+            except Exception:
+                pass
+        # set algebra on key views / sets of constants (`kw.keys() & {...}`, `set(kw) - FIELDS`): reads only
+        if isinstance(e.op, (ast.BitAnd, ast.BitOr, ast.Sub)) and l[0] in ("keyset", "view") and r[0] in ("keyset", "view"):
+            a, b = self.to_keyset(l, st), self.to_keyset(r, st)
+            if a is not None and b is not None:
+                (am, ay), (bm, by) = a, b
+                if isinstance(e.op, ast.BitAnd):
+                    may = (ay & by) if (ay is not None and by is not None) else (ay if by is None else by)
+                    return ("keyset", am & bm, may, False)
+                if isinstance(e.op, ast.BitOr):
+                    return ("keyset", am | bm, None if (ay is None or by is None) else ay | by, False)
+                return ("keyset", (am - by) if by is not None else frozenset(), ay if ay is None else ay - bm, False)
+            return TOP
+        if isinstance(e.op, ast.Add) and l[0] in ("tuple", "list") and r[0] == l[0]:
+            return (l[0], l[1] + r[1])
+        self.escape_val(l, st)
+        self.escape_val(r, st)
+        return NN  # arithmetic / concatenation / formatting does not produce None
+
+    def ev_BoolOp(self, e, st):
+        is_and = isinstance(e.op, ast.And)
+        res = None  # joined value of the operands that can be the result
+        resst = None  # joined state of the evaluations that stopped early
+        cur = st
+        last = TOP
+        for i, x in enumerate(e.values):
+            if i:
+                self.cand.add(id(x))
+            self.live.add(id(x))
+            try:
+                v = self.ev(x, cur)
+            except _AbsRaise as r:
+                if resst is None:
+                    raise
+                # an earlier operand may have ended the evaluation: the expression does not certainly raise
+                self.note_exc(r.st)
+                st.env, st.heap = resst.env, resst.heap
+                return res
+            last = v
+            if i == len(e.values) - 1:
+                break
+            t = self.truth(v, cur)
+            if t is None:
+                # may stop here
+                t_st, f_st = cur.copy(), cur
+                self.refine(x, t_st, not is_and)
+                self.refine(x, f_st, is_and)
+                res = v if res is None else (res if res == v else TOP)
+                resst = self.join(resst, t_st)
+                cur = f_st
+                continue
+            if t != is_and:
+                # certainly stops here
+                break
+        if resst is not None:
+            j = self.join(resst, cur)
+            st.env, st.heap = j.env, j.heap
+            return last if res == last else TOP
+        if cur is not st:
+            st.env, st.heap = cur.env, cur.heap
+        return last
+
+    def ev_IfExp(self, e, st):
+        tv = self.ev(e.test, st)
+        t = self.truth(tv, st)
+        self.cand.add(id(e.body))
+        self.cand.add(id(e.orelse))
+        if t is True:
+            self.live.add(id(e.body))
+            return self.ev(e.body, st)
+        if t is False:
+            self.live.add(id(e.orelse))
+            return self.ev(e.orelse, st)
+        a, b = st.copy(), st.copy()
+        self.refine(e.test, a, True)
+        self.refine(e.test, b, False)
+        self.live.add(id(e.body))
+        self.live.add(id(e.orelse))
+        ra = rb = None
+        va = vb = TOP
+        try:
+            va = self.ev(e.body, a)
+            ra = a
+        except _AbsRaise as r:
+            self.note_exc(r.st)
+        try:
+            vb = self.ev(e.orelse, b)
+            rb = b
+        except _AbsRaise as r:
+            if ra is None:
+                raise
+            self.note_exc(r.st)
+        if ra is None and rb is None:
+            raise _AbsRaise("?", st)
+        j = self.join(ra, rb)
+        st.env, st.heap = j.env, j.heap
+        if ra is None:
+            return vb
+        if rb is None:
+            return va
+        return va if va == vb else self.join_val(va, vb, st, st)
+
+    def ev_Compare(self, e, st):
+        left = self.ev(e.left, st)
+        result = True
+        for op, c in zip(e.ops, e.comparators):
+            right = self.ev(c, st)
+            r = None
+            if isinstance(op, ast.Is):
+                r = self._identical(left, right)
+            elif isinstance(op, ast.IsNot):
+                r = self._identical(left, right)
+                r = None if r is None else not r
+            elif isinstance(op, ast.Eq):
+                r = self._equal(left, right)
+            elif isinstance(op, ast.NotEq):
+                r = self._equal(left, right)
+                r = None if r is None else not r
+            elif isinstance(op, (ast.In, ast.NotIn)):
+                r = self.contains(left, right, st)
+                if r is not None and isinstance(op, ast.NotIn):
+                    r = not r
+            elif _is_const(left) and _is_const(right) and isinstance(left[2], (int, float)) and isinstance(right[2], (int, float)):
+                a, b = left[2], right[2]
+                r = {ast.Lt: a < b, ast.LtE: a <= b, ast.Gt: a > b, ast.GtE: a >= b}.get(type(op))
+            if r is False:
+                # the remaining comparators are not evaluated
+                return K(False)
+            if r is None:
+                result = None
+            left = right
+        return TOP if result is None else K(True)
+
+    def ev_Subscript(self, e, st):
+        recv = self.ev(e.value, st)
+        if isinstance(e.slice, ast.Slice):
+            for x in (e.slice.lower, e.slice.upper, e.slice.step):
+                if x is not None:
+                    self.ev(x, st)
+            return NN  # a slice of a sequence is a sequence
+        key = self.ev(e.slice, st)
+        if recv[0] == "ref":
+            return self.dict_get(recv, key, st, strict=True)
+        if recv[0] in ("tuple", "list") and _is_const(key) and isinstance(key[2], int) and not isinstance(key[2], bool) and -len(recv[1]) <= key[2] < len(recv[1]):
+            return recv[1][key[2]]
+        return TOP
+
+    # -- dictionaries
+    @staticmethod
+    def _hkey(key):
+        if _is_const(key):
+            try:
+                hash(key[2])
+                return True
+            except TypeError:
+                return False
+        return False
+
+    def dict_get(self, recv, key, st, strict, default=None, remove=False):
+        """d[k] (strict) / d.get(k, default) / d.pop(k[, default])"""
+        d = st.heap.get(recv[1])
+        if d is None or d.esc:
+            return TOP
+        if self._hkey(key):
+            k = key[2]
+            h = d.has(k)
+            v = d.val(k)
+            if remove:
+                st.heap[recv[1]] = d.without(k)
+            if h is True:
+                return v
+            if h is False:
+                if strict:
+                    raise _AbsRaise("KeyError", st)
+                return default if default is not None else K(None)
+            if strict:
+                return v
+            dv = default if default is not None else K(None)
+            return v if v == dv else TOP
+        # unknown key
+        if d.may is not None and not d.may:
+            if strict:
+                raise _AbsRaise("KeyError", st)
+            return default if default is not None else K(None)
+        if remove:
+            st.heap[recv[1]] = d.without_unknown()
+        return TOP
+
+    def dict_method(self, e, recv, attr, st):
+        oid = recv[1]
+        args = []
+        for a in e.args:
+            if isinstance(a, ast.Starred):
+                self.escape_val(self.ev(a.value, st), st)
+                args.append(None)
+            else:
+                args.append(self.ev(a, st))
+        kws = {}
+        for k in e.keywords:
+            v = self.ev(k.value, st)
+            kws[k.arg] = v
+        d = st.heap.get(oid)
+        if d is None:
+            return TOP
+        plain = None not in args and not kws
+        if attr in ("get", "pop") and plain and len(args) in (1, 2):
+            strict = attr == "pop" and len(args) == 1
+            dflt = args[1] if len(args) == 2 else None
+            if dflt is not None and not self._storable(dflt):
+                self.escape_val(dflt, st)
+                dflt = TOP
+            return self.dict_get(recv, args[0], st, strict=strict, default=dflt, remove=(attr == "pop"))
+        if attr == "__getitem__" and plain and len(args) == 1:
+            return self.dict_get(recv, args[0], st, strict=True)
+        if attr == "__contains__" and plain and len(args) == 1:
+            r = self.contains(args[0], recv, st)
+            return TOP if r is None else K(r)
+        if attr == "__delitem__" and plain and len(args) == 1:
+            self.dict_get(recv, args[0], st, strict=True, remove=True)
+            return K(None)
+        if attr in ("keys", "items", "values") and plain and not args:
+            return ("view", oid, attr)
+        if attr == "copy" and plain and not args:
+            noid = "copy@%d" % id(e)
+            st.heap[noid] = d.escaped() if noid in st.heap else _D(d.must, d.may, dict(d.vals), d.esc)
+            return ("ref", noid)
+        if attr == "clear" and plain and not args:
+            if not d.esc:
+                st.heap[oid] = _D()
+            return K(None)
+        if attr == "popitem" and plain and not args:
+            if not d.esc and d.may is not None and not d.may:
+                raise _AbsRaise("KeyError", st)
+            st.heap[oid] = d.without_unknown()
+            return TOP
+        if attr in ("setdefault", "__setitem__") and plain and len(args) in (1, 2):
+            v = args[1] if len(args) == 2 else K(None)
+            if not self._storable(v):
+                self.escape_val(v, st)
+                v = TOP
+            if self._hkey(args[0]):
+                k = args[0][2]
+                if attr == "setdefault":
+                    h = d.has(k)
+                    old = d.val(k)
+                    st.heap[oid] = d.with_key(k, v, weak=True)
+                    return old if h is True else (v if h is False else (v if v == old else TOP))
+                st.heap[oid] = d.with_key(k, v)
+                return K(None)
+            st.heap[oid] = d.with_unknown_key()
+            return TOP
+        if attr == "update":
+            nd = d
+            for a in args:
+                src = st.heap.get(a[1]) if a is not None and a[0] == "ref" else None
+                if src is None or src.esc or src.may is None:
+                    nd = nd.with_unknown_key()
+                else:
+                    for kk in src.may:
+                        nd = nd.with_key(kk, src.val(kk)) if src.has(kk) else _D.join(nd, nd.with_key(kk, src.val(kk)))
+            for k, v in kws.items():
+                if k is None:
+                    src = st.heap.get(v[1]) if v[0] == "ref" else None
+                    if src is None or src.esc or src.may is None:
+                        nd = nd.with_unknown_key()
+                    else:
+                        for kk in src.may:
+                            nd = nd.with_key(kk, src.val(kk)) if src.has(kk) else _D.join(nd, nd.with_key(kk, src.val(kk)))
+                else:
+                    if not self._storable(v):
+                        self.escape_val(v, st)
+                        v = TOP
+                    nd = nd.with_key(k, v)
+            st.heap[oid] = nd
+            return K(None)
+        # anything else: not followed
+        for a in args:
+            if a is not None:
+                self.escape_val(a, st)
+        for v in kws.values():
+            self.escape_val(v, st)
+        self.escape_val(recv, st)
+        return TOP
+
+    # -- calls
+    def ev_Call(self, e, st, awaited=False):
+        r = self._ev_call(e, st, awaited)
+        self._after_call(e, st, awaited)
+        return r
+
+    def _after_call(self, e, st, awaited):
+        """what a call may have done to the attributes of the receiver of the analysed method"""
+        sn = self.selfname
+        if sn is None:
+            return
+        if not any(k.startswith(".") for k in st.env) and "<self escaped>" in st.env:
+            return
+        f = e.func
+        if isinstance(f, ast.Name) and f.id not in st.env and f.id not in self.locals and f.id in _PURE_BUILTINS | {"dict", "getattr"}:
+            return
+        if isinstance(f, ast.Name) and st.env.get(f.id, TOP)[0] == "func":
+            return  # evaluated in place: its stores were seen
+        if isinstance(f, ast.Attribute):
+            root = f.value
+            while isinstance(root, (ast.Attribute, ast.Subscript)):
+                root = root.value
+            if isinstance(root, ast.Name) and st.env.get(root.id, TOP)[0] in ("ref", "view", "tuple", "list", "keyset", "const"):
+                return  # a method of a tracked dictionary / constant
+            if (isinstance(root, ast.Name) and root.id == sn) or (isinstance(root, ast.Call) and chain(root.func) == "super"):
+                if self._passes_self(e) or isinstance(f.value, (ast.Name, ast.Call)):
+                    self.forget_self(st)  # a method of the receiver itself
+                else:
+                    for k in [k for k in st.env if k.startswith(".")]:
+                        del st.env[k]  # a method of something reached through the receiver
+                return
+        if isinstance(f, ast.Name) and f.id == "setattr" and e.args and isinstance(e.args[0], ast.Name) and e.args[0].id == sn:
+            if len(e.args) == 3 and isinstance(e.args[1], ast.Constant) and isinstance(e.args[1].value, str):
+                st.env.pop("." + e.args[1].value, None)
+            else:
+                for k in [k for k in st.env if k.startswith(".")]:
+                    del st.env[k]
+            return
+        if self._passes_self(e) or "<self escaped>" in st.env or awaited:
+            self.forget_self(st)
+
+    def _passes_self(self, e):
+        sn = self.selfname
+        for a in list(e.args) + [k.value for k in e.keywords]:
+            for n in ast.walk(a):
+                if isinstance(n, ast.Name) and n.id == sn:
+                    p = self.parents.get(id(n))
+                    if not (isinstance(p, ast.Attribute) and p.value is n):
+                        return True
+        return False
+
+    def _ev_call(self, e, st, awaited=False):
+        f = e.func
+        if isinstance(f, ast.Attribute):
+            recv = self.ev(f.value, st)
+            if recv[0] == "ref":
+                return self.dict_method(e, recv, f.attr, st)
+            if recv[0] == "view":
+                # methods of a key/item view do not modify the dictionary
+                for a in e.args:
+                    self.ev(a.value if isinstance(a, ast.Starred) else a, st)
+                return TOP
+            if recv[0] in ("tuple", "const", "list", "keyset"):
+                vals = self.call_args(e, st)
+                if f.attr in _MUTATING and recv[0] in ("list", "keyset"):
+                    self.havoc_mutables(st)
+                    if f.attr in ("add", "append", "discard", "remove", "insert", "clear", "sort", "reverse"):
+                        return K(None)  # the container keeps immutable arguments only by reference: nothing escapes
+                if recv[0] == "keyset" and f.attr in ("intersection", "union", "difference") and len(vals) == 1 and not e.keywords:
+                    o = self.to_keyset(vals[0], st)
+                    if o is not None:
+                        (am, ay), (bm, by) = (recv[1], recv[2]), o
+                        if f.attr == "intersection":
+                            return ("keyset", am & bm, (ay & by) if (ay is not None and by is not None) else (ay if by is None else by), False)
+                        if f.attr == "union":
+                            return ("keyset", am | bm, None if (ay is None or by is None) else ay | by, False)
+                        return ("keyset", (am - by) if by is not None else frozenset(), ay if ay is None else ay - bm, False)
+                for v in vals:
+                    self.escape_val(v, st)
+                return TOP
+            self.escape_val(recv, st)
+            for v in self.call_args(e, st):
+                self.escape_val(v, st)
+            return TOP
+        if isinstance(f, ast.Name):
+            fv = self.ev_Name(f, st)
+            if fv[0] == "func":
+                return self.inline(fv, e, st, awaited)
+            shadow = f.id in st.env or f.id in self.locals
+            if not shadow and f.id in _PURE_BUILTINS:
+                vals = self.call_args(e, st)
+                if f.id == "len" and len(vals) == 1:
+                    v = vals[0]
+                    if v[0] in ("tuple", "list"):
+                        return K(len(v[1]))
+                    if v[0] == "keyset":
+                        return K(len(v[1])) if v[1] == v[2] else TOP
+                    if v[0] in ("ref", "view"):
+                        d = st.heap.get(v[1])
+                        if d is not None and not d.esc and d.may is not None and d.must == d.may:
+                            return K(len(d.may))
+                    return TOP
+                if f.id == "bool" and len(vals) == 1:
+                    t = self.truth(vals[0], st)
+                    return TOP if t is None else K(t)
+                if f.id in ("set", "frozenset") and not e.keywords and len(vals) <= 1:
+                    ks = self.to_keyset(vals[0], st) if vals else (frozenset(), frozenset())
+                    if ks is not None:
+                        return ("keyset", ks[0], ks[1], f.id == "frozenset")
+                    self.escape_val(vals[0], st)
+                    return TOP
+                if f.id in ("list", "tuple", "sorted", "iter", "reversed") and len(vals) == 1 and not e.keywords:
+                    v = vals[0]
+                    if v[0] in ("ref", "view"):
+                        d = st.heap.get(v[1])
+                        if d is not None and not d.esc and d.may is not None and not d.may:
+                            return ("tuple", ())
+                        return TOP
+                    if v[0] == "keyset":
+                        if v[2] is not None and not v[2]:
+                            return ("tuple", ())
+                        if f.id == "sorted" and v[1] == v[2] and len({type(x) for x in v[1]}) == 1:
+                            return ("list", tuple(K(x) for x in sorted(v[1])))
+                        return TOP
+                    if v[0] in ("tuple", "list"):
+                        if f.id == "tuple":
+                            return ("tuple", v[1])
+                        if f.id == "list":
+                            return ("list", v[1])
+                        if f.id == "reversed":
+                            return ("tuple", tuple(reversed(v[1])))
+                    return TOP
+                if f.id == "object" and not vals:
+                    return ("obj", "local@%d" % id(e), True)
+                for v in vals:
+                    if v[0] == "func":
+                        self.escape_val(v, st)
+                return TOP
+            if not shadow and f.id == "setattr" and len(e.args) == 3 and not e.keywords:
+                vals = self.call_args(e, st)
+                self.escape_val(vals[2], st)
+                return K(None)
+            if not shadow and f.id == "getattr" and len(e.args) in (2, 3) and not e.keywords:
+                vals = self.call_args(e, st)
+                if vals[0][0] in ("ref", "view", "list", "keyset", "func"):
+                    self.escape_val(vals[0], st)
+                return TOP
+            if not shadow and f.id == "dict":
+                return self.dict_ctor(e, st)
+            for v in self.call_args(e, st):
+                self.escape_val(v, st)
+            return TOP
+        fv = self.ev(f, st)
+        self.escape_val(fv, st)
+        for v in self.call_args(e, st):
+            self.escape_val(v, st)
+        return TOP
+
+    def call_args(self, e, st):
+        """evaluate the arguments in order -> values that are handed to the callee (`*x` / `**x` only read x)"""
+        out = []
+        rec = {"pos": [], "kw": {}, "dstar": []}
+        for a in e.args:
+            if isinstance(a, ast.Starred):
+                v = self.ev(a.value, st)
+                rec["pos"] = None
+                if v[0] in ("tuple", "list"):
+                    out.extend(v[1])
+                elif v[0] not in ("ref", "view", "keyset"):
+                    out.append(v)
+            else:
+                v = self.ev(a, st)
+                out.append(v)
+                if rec["pos"] is not None:
+                    rec["pos"].append(v)
+        for k in e.keywords:
+            v = self.ev(k.value, st)
+            if k.arg is None:
+                d = st.heap.get(v[1]) if v[0] == "ref" else None
+                if d is not None and not d.esc and d.may is not None and all(isinstance(x, str) for x in d.may):
+                    rec["dstar"].append((d.must, d.may, tuple(sorted(d.vals.items()))))
+                    out.extend(x for x in d.vals.values())
+                    continue
+                rec["dstar"].append(None)
+                if v[0] == "ref":
+                    continue
+            else:
+                rec["kw"][k.arg] = v
+            out.append(v)
+        if self.depth == 0:
+            old = self.callinfo.get(id(e))
+            self.callinfo[id(e)] = rec if old is None else self._join_rec(old, rec)
+        return out
+
+    @staticmethod
+    def _join_rec(a, b):
+        """what a call site passes, over several evaluations of it"""
+        out = {"pos": None, "kw": {}, "dstar": []}
+        if a["pos"] is not None and b["pos"] is not None and len(a["pos"]) == len(b["pos"]):
+            out["pos"] = [x if x == y else TOP for x, y in zip(a["pos"], b["pos"])]
+        for k in set(a["kw"]) | set(b["kw"]):
+            x, y = a["kw"].get(k, TOP), b["kw"].get(k, TOP)
+            out["kw"][k] = x if x == y else TOP
+        if len(a["dstar"]) != len(b["dstar"]):
+            out["dstar"] = [None] * max(len(a["dstar"]), len(b["dstar"]))
+        else:
+            for x, y in zip(a["dstar"], b["dstar"]):
+                if x is None or y is None:
+                    out["dstar"].append(None)
+                    continue
+                vx, vy = dict(x[2]), dict(y[2])
+                vals = {k: (vx[k] if vx.get(k) == vy.get(k) else TOP) for k in set(vx) | set(vy)}
+                out["dstar"].append((x[0] & y[0], x[1] | y[1], tuple(sorted(vals.items()))))
+        return out
+
+    def dict_ctor(self, e, st):
+        d = _D()
+        ok = True
+        for a in e.args:
+            v = self.ev(a.value if isinstance(a, ast.Starred) else a, st)
+            src = st.heap.get(v[1]) if v[0] == "ref" and not isinstance(a, ast.Starred) else None
+            if src is None or src.esc:
+                self.escape_val(v, st) if v[0] != "ref" else None
+                ok = False
+                continue
+            d = _D(src.must, src.may, dict(src.vals))
+        for k in e.keywords:
+            v = self.ev(k.value, st)
+            if k.arg is None:
+                src = st.heap.get(v[1]) if v[0] == "ref" else None
+                if src is None or src.esc or src.may is None:
+                    d = d.with_unknown_key()
+                else:
+                    for kk in src.may:
+                        d = d.with_key(kk, src.val(kk)) if src.has(kk) else _D.join(d, d.with_key(kk, src.val(kk)))
+                continue
+            if not self._storable(v):
+                self.escape_val(v, st)
+                v = TOP
+            d = d.with_key(k.arg, v)
+        oid = "dict@%d" % id(e)
+        if oid in st.heap or not ok:
+            d = d.escaped()
+        st.heap[oid] = d
+        return ("ref", oid)
+
+    def inline(self, fv, call, st, awaited):
+        node = self.funcs[fv[1]]
+        is_lambda = isinstance(node, ast.Lambda)
+        a = node.args
+        bad = self.depth >= self.MAX_DEPTH or a.vararg or a.kwarg or any(isinstance(x, ast.Starred) for x in call.args) or any(k.arg is None for k in call.keywords)
+        if not is_lambda:
+            bad = bad or node.decorator_list or (isinstance(node, ast.AsyncFunctionDef) and not awaited)
+            bad = bad or any(isinstance(n, (ast.Yield, ast.YieldFrom)) for n in _walk_own(node))
+        vals = [self.ev(x, st) for x in call.args] if not bad else None
+        if bad:
+            self.escape_val(fv, st)
+            for v in self.call_args(call, st):
+                self.escape_val(v, st)
+            return TOP
+        names = [x.arg for x in a.posonlyargs + a.args]
+        if len(vals) > len(names):
+            self.escape_val(fv, st)
+            return TOP
+        bound = dict(zip(names, vals))
+        for k in call.keywords:
+            bound[k.arg] = self.ev(k.value, st)
+        allp = a.posonlyargs + a.args
+        for p, d in zip(reversed(allp), reversed(a.defaults)):
+            if p.arg not in bound:
+                bound[p.arg] = self.ev_Constant(d, st) if isinstance(d, ast.Constant) else TOP
+        for p, d in zip(a.kwonlyargs, a.kw_defaults):
+            if p.arg not in bound:
+                bound[p.arg] = self.ev_Constant(d, st) if isinstance(d, ast.Constant) else TOP
+        if any(p.arg not in bound for p in allp + a.kwonlyargs):
+            self.escape_val(fv, st)
+            return TOP
+        own = set(bound)
+        nonloc = set()
+        if not is_lambda:
+            for n in _walk_own(node):
+                if isinstance(n, ast.Name) and isinstance(n.ctx, (ast.Store, ast.Del)):
+                    own.add(n.id)
+                elif isinstance(n, (ast.Nonlocal, ast.Global)):
+                    nonloc |= set(n.names)
+                elif isinstance(n, (ast.FunctionDef, ast.AsyncFunctionDef, ast.ClassDef)) and n is not node:
+                    own.add(n.name)
+                elif isinstance(n, ast.ExceptHandler) and n.name:
+                    own.add(n.name)
+        own -= nonloc
+        saved = st.env
+        env = {k: v for k, v in saved.items() if k not in own}
+        env.update(bound)
+        st.env = env
+        self.frames.append(saved)
+        self.depth += 1
+        try:
+            if is_lambda:
+                body = node.body
+                if isinstance(body, ast.Await):
+                    body = body.value
+                res = self.ev(body, st)
+            else:
+                o = self.block(node.body, st)
+                end = o.next
+                if end is not None:
+                    end.env["<ret>"] = K(None)
+                fin = self.join(o.ret, end)
+                if fin is None:
+                    raise _AbsRaise("?", o.exc if o.exc is not None else st)
+                res = fin.env.get("<ret>", TOP)
+                st.env, st.heap = fin.env, fin.heap
+        except _AbsRaise as r:
+            rs = _St(dict(saved), dict(r.st.heap))
+            raise _AbsRaise(r.name, rs)
+        finally:
+            self.depth -= 1
+            self.frames.pop()
+        new_env = dict(saved)
+        for n in nonloc:
+            new_env.pop(n, None)
+        # locals of the caller that the callee could not rebind keep their values; values it could reach through closures are shared through the heap
+        st.env = new_env
+        return res
+
+    # ------------------------------------------------------------------ refinement
+    def refine(self, test, st, pol):
+        """add the fact `test == pol` to st (only membership facts on tracked dictionaries are kept)"""
+        if isinstance(test, ast.UnaryOp) and isinstance(test.op, ast.Not):
+            return self.refine(test.operand, st, not pol)
+        if isinstance(test, ast.BoolOp):
+            if isinstance(test.op, ast.And) == pol:
+                for v in test.values:
+                    self.refine(v, st, pol)
+            return
+        if isinstance(test, ast.Compare) and len(test.ops) == 1 and isinstance(test.ops[0], (ast.In, ast.NotIn)):
+            present = isinstance(test.ops[0], ast.In) == pol
+            c = test.comparators[0]
+            if isinstance(c, ast.Call) and isinstance(c.func, ast.Attribute) and c.func.attr == "keys" and not c.args:
+                c = c.func.value
+            if not isinstance(c, ast.Name) or st.env.get(c.id, TOP)[0] != "ref":
+                return
+            if not (isinstance(test.left, ast.Constant) and isinstance(test.left.value, (str, int, bytes))):
+                return
+            oid = st.env[c.id][1]
+            d = st.heap.get(oid)
+            if d is None or d.esc:
+                return
+            k = test.left.value
+            if present:
+                st.heap[oid] = _D(d.must | {k}, None if d.may is None else d.may | {k}, dict(d.vals))
+            else:
+                st.heap[oid] = d.without(k)
+
+    # ------------------------------------------------------------------ statements
+    def block(self, stmts, st):
+        out = _Out()
+        cur = st
+        for s in stmts:
+            if cur is None:
+                break
+            o = self.stmt(s, cur)
+            out.ret = self.join(out.ret, o.ret)
+            out.brk = self.join(out.brk, o.brk)
+            out.cont = self.join(out.cont, o.cont)
+            out.exc = self.join(out.exc, o.exc)
+            cur = o.next
+        out.next = cur
+        return out
+
+    def stmt(self, s, st):
+        self.tick()
+        self.live.add(id(s))
+        self.note_exc(st)
+        m = getattr(self, "do_" + type(s).__name__, None)
+        out = _Out()
+        try:
+            if m is None:
+                out = self.havoc(s, st)
+            else:
+                r = m(s, st)
+                if isinstance(r, _Out):
+                    out = r
+                else:
+                    out.next = st
+            if out.next is not None:
+                self.completed.add(id(s))
+        except _AbsRaise as r:
+            self.raised.setdefault(id(s), r.name)
+            out = _Out()
+            out.exc = r.st
+            self.note_exc(r.st)
+        self.note_exc(out.next)
+        return out
+
+    def havoc(self, s, st):
+        for n in ast.walk(s):
+            self.live.add(id(n))
+            if isinstance(n, ast.Name) and isinstance(n.ctx, (ast.Store, ast.Del)):
+                if n.id in st.env:
+                    self.escape_val(st.env[n.id], st)
+                st.env[n.id] = TOP
+        self.escape_mentions(s, st)
+        out = _Out()
+        out.next = st
+        out.exc = st.copy()
+        for n in ast.walk(s):
+            if isinstance(n, ast.Return):
+                r = st.copy()
+                r.env["<ret>"] = TOP
+                out.ret = r
+            elif isinstance(n, ast.Break):
+                out.brk = st.copy()
+            elif isinstance(n, ast.Continue):
+                out.cont = st.copy()
+        return out
+
+    def assign(self, t, v, st):
+        if isinstance(t, ast.Name):
+            if t.id in self.untracked:
+                self.escape_val(v, st)
+                return
+            st.env[t.id] = v
+            return
+        if isinstance(t, (ast.Tuple, ast.List)):
+            elts = t.elts
+            vals = None
+            stars = [i for i, x in enumerate(elts) if isinstance(x, ast.Starred)]
+            if v[0] in ("tuple", "list"):
+                if not stars and len(v[1]) == len(elts):
+                    vals = list(v[1])
+                elif len(stars) == 1 and len(v[1]) >= len(elts) - 1:
+                    i = stars[0]
+                    tail = len(elts) - 1 - i
+                    seq = list(v[1])
+                    vals = seq[:i] + [("list", tuple(seq[i:len(seq) - tail]))] + seq[len(seq) - tail:]
+            if vals is None:
+                self.escape_val(v, st)
+                vals = [TOP] * len(elts)
+            for x, xv in zip(elts, vals):
+                self.assign(x.value if isinstance(x, ast.Starred) else x, xv, st)
+            return
+        if isinstance(t, ast.Attribute):
+            if isinstance(t.value, ast.Name) and t.value.id == self.selfname and self.depth > 0:
+                st.env.pop("." + t.attr, None)
+            if isinstance(t.value, ast.Name) and t.value.id == self.selfname and self.depth == 0 and t.value.id in st.env and st.env[t.value.id] == TOP:
+                st.env.pop("." + t.attr, None)
+                if self._storable(v) and self.plain_attr(t.attr):
+                    st.env["." + t.attr] = v
+                else:
+                    self.escape_val(v, st)
+                return
+            self.escape_val(self.ev(t.value, st), st)
+            self.escape_val(v, st)
+            return
+        if isinstance(t, ast.Subscript):
+            recv = self.ev(t.value, st)
+            if isinstance(t.slice, ast.Slice):
+                self.escape_val(v, st)
+                return
+            key = self.ev(t.slice, st)
+            if recv[0] == "ref":
+                d = st.heap.get(recv[1])
+                if not self._storable(v):
+                    self.escape_val(v, st)
+                    v = TOP
+                if d is not None:
+                    st.heap[recv[1]] = d.with_key(key[2], v) if self._hkey(key) else d.with_unknown_key()
+                return
+            self.escape_val(v, st)
+            return
+        self.escape_val(v, st)
+
+    def do_Assign(self, s, st):
+        v = self.ev(s.value, st)
+        for t in s.targets:
+            self.assign(t, v, st)
+
+    def do_AnnAssign(self, s, st):
+        if s.value is not None:
+            self.assign(s.target, self.ev(s.value, st), st)
+
+    def do_AugAssign(self, s, st):
+        v = self.ev(s.value, st)
+        self.escape_val(v, st)
+        t = s.target
+        if isinstance(t, ast.Name):
+            cur = st.env.get(t.id, TOP)
+            self.escape_val(cur, st)
+            if cur[0] in ("list", "keyset"):
+                self.havoc_mutables(st)  # `x += ...` / `x |= ...` changes a list / set in place: aliases too
+            st.env[t.id] = TOP
+        elif isinstance(t, ast.Subscript):
+            recv = self.ev(t.value, st)
+            key = self.ev(t.slice, st) if not isinstance(t.slice, ast.Slice) else TOP
+            if recv[0] == "ref":
+                self.dict_get(recv, key, st, strict=True)
+                d = st.heap.get(recv[1])
+                if d is not None:
+                    st.heap[recv[1]] = d.with_key(key[2], TOP) if self._hkey(key) else d.with_unknown_key()
+        elif isinstance(t, ast.Attribute):
+            self.escape_val(self.ev(t.value, st), st)
+
+    def do_Expr(self, s, st):
+        self.ev(s.value, st)
+
+    def do_Pass(self, s, st):
+        pass
+
+    def do_Import(self, s, st):
+        for a in s.names:
+            st.env[(a.asname or a.name).split(".")[0]] = TOP
+
+    do_ImportFrom = do_Import
+
+    def do_Global(self, s, st):
+        pass
+
+    do_Nonlocal = do_Global
+
+    def do_Assert(self, s, st):
+        # an assertion is not a guard (python -O)
+        c = st.copy()
+        try:
+            self.ev(s.test, c)
+            if s.msg is not None:
+                self.ev(s.msg, c)
+        except _AbsRaise:
+            pass
+        j = self.join(st, c)
+        st.env, st.heap = j.env, j.heap
+
+    def do_Delete(self, s, st):
+        for t in s.targets:
+            if isinstance(t, ast.Name):
+                st.env.pop(t.id, None)
+            elif isinstance(t, ast.Subscript) and not isinstance(t.slice, ast.Slice):
+                recv = self.ev(t.value, st)
+                key = self.ev(t.slice, st)
+                if recv[0] == "ref":
+                    self.dict_get(recv, key, st, strict=True, remove=True)
+            else:
+                for c in ast.iter_child_nodes(t):
+                    if isinstance(c, ast.expr):
+                        self.escape_val(self.ev(c, st), st)
+
+    def do_Return(self, s, st):
+        v = self.ev(s.value, st) if s.value is not None else K(None)
+        st.env["<ret>"] = v
+        out = _Out()
+        out.ret = st
+        return out
+
+    def do_Raise(self, s, st):
+        name = "?"
+        if s.exc is not None:
+            self.escape_val(self.ev(s.exc, st), st)
+            c = chain(s.exc.func if isinstance(s.exc, ast.Call) else s.exc)
+            if c:
+                name = c.split(".")[-1]
+        if s.cause is not None:
+            self.ev(s.cause, st)
+        out = _Out()
+        out.exc = st
+        return out
+
+    def do_Break(self, s, st):
+        out = _Out()
+        out.brk = st
+        return out
+
+    def do_Continue(self, s, st):
+        out = _Out()
+        out.cont = st
+        return out
+
+    def do_FunctionDef(self, s, st):
+        for d in s.decorator_list:
+            self.escape_val(self.ev(d, st), st)
+        for d in s.args.defaults + [x for x in s.args.kw_defaults if x is not None]:
+            self.escape_val(self.ev(d, st), st)
+        self.funcs[id(s)] = s
+        st.env[s.name] = ("func", id(s))
+        if s.decorator_list:
+            self.escape_val(st.env[s.name], st)
+            st.env[s.name] = TOP
+
+    do_AsyncFunctionDef = do_FunctionDef
+
+    def do_If(self, s, st):
+        tv = self.ev(s.test, st)
+        t = self.truth(tv, st)
+        if t is True:
+            return self.block(s.body, st)
+        if t is False:
+            return self.block(s.orelse, st)
+        a, b = st.copy(), st
+        self.refine(s.test, a, True)
+        self.refine(s.test, b, False)
+        oa = self.block(s.body, a)
+        ob = self.block(s.orelse, b)
+        return self.merge(oa, ob)
+
+    def merge(self, a, b):
+        out = _Out()
+        for k in ("next", "ret", "brk", "cont", "exc"):
+            setattr(out, k, self.join(getattr(a, k), getattr(b, k)))
+        return out
+
+    def iter_elems(self, it_node, it, st):
+        if it[0] in ("tuple", "list"):
+            return list(it[1])
+        if it[0] == "keyset" and it[2] is not None and not it[2]:
+            return []
+        if it[0] in ("ref", "view"):
+            d = st.heap.get(it[1])
+            if d is not None and not d.esc and d.may is not None and not d.may:
+                return []
+        return None
+
+    def do_For(self, s, st):
+        it = self.ev(s.iter, st)
+        elems = self.iter_elems(s.iter, it, st)
+        out = _Out()
+        if elems is not None and len(elems) <= self.MAX_UNROLL:
+            cur = st
+            for el in elems:
+                if cur is None:
+                    break
+                self.assign(s.target, el, cur)
+                o = self.block(s.body, cur)
+                out.ret = self.join(out.ret, o.ret)
+                out.exc = self.join(out.exc, o.exc)
+                out.brk = self.join(out.brk, o.brk)
+                cur = self.join(o.next, o.cont)
+            nxt = None
+            if cur is not None:
+                o2 = self.block(s.orelse, cur)
+                out.ret = self.join(out.ret, o2.ret)
+                out.exc = self.join(out.exc, o2.exc)
+                out.cont = o2.cont
+                nxt = o2.next
+                brk2 = o2.brk
+            else:
+                brk2 = None
+            out.next = self.join(nxt, out.brk)
+            out.brk = brk2
+            return out
+        if it[0] == "func":
+            self.escape_val(it, st)
+        return self.loop(s, st, None)
+
+    do_AsyncFor = do_For
+
+    def do_While(self, s, st):
+        return self.loop(s, st, s.test)
+
+    def loop(self, s, st, test):
+        """fixed point over the loop head"""
+        out = _Out()
+        head = st
+        exits = None
+        for rnd in range(12):
+            h = head.copy()
+            exit_here = None
+            body_in = h
+            if test is not None:
+                tv = self.ev(test, h)
+                t = self.truth(tv, h)
+                if t is False:
+                    exit_here, body_in = h, None
+                elif t is None:
+                    exit_here = h.copy()
+                    self.refine(test, exit_here, False)
+                    self.refine(test, h, True)
+            else:
+                exit_here = h.copy()
+                self.assign(s.target, TOP, h)
+            exits = self.join(exits, exit_here)
+            if body_in is None:
+                break
+            o = self.block(s.body, body_in)
+            out.ret = self.join(out.ret, o.ret)
+            out.exc = self.join(out.exc, o.exc)
+            out.brk = self.join(out.brk, o.brk)
+            back = self.join(o.next, o.cont)
+            if back is None:
+                break
+            new_head = self.join(head, back)
+            if new_head == head:
+                break
+            head = new_head
+        else:
+            # no fixed point within the budget: forget what the loop touches
+            w = head.copy()
+            hv = self.havoc(s, w)
+            out.ret = self.join(out.ret, hv.ret)
+            out.exc = self.join(out.exc, hv.exc)
+            exits = self.join(exits, w)
+        brk = out.brk
+        out.brk = None
+        nxt = None
+        if exits is not None:
+            o2 = self.block(s.orelse, exits)
+            out.ret = self.join(out.ret, o2.ret)
+            out.exc = self.join(out.exc, o2.exc)
+            out.brk, out.cont = o2.brk, o2.cont
+            nxt = o2.next
+        out.next = self.join(nxt, brk)
+        return out
+
+    def _handler_names(self, h):
+        if h.type is None:
+            return None
+        ts = h.type.elts if isinstance(h.type, ast.Tuple) else [h.type]
+        return {(chain(t) or "?").split(".")[-1] for t in ts}
+
+    def do_Try(self, s, st):
+        self.acc.append([self.depth, None])
+        try:
+            ob = self.block(s.body, st)
+        finally:
+            maybe = self.acc.pop()[1]
+        self.note_exc(maybe)  # what no handler of this statement takes reaches the enclosing one
+        out = _Out()
+        out.ret, out.brk, out.cont = ob.ret, ob.brk, ob.cont
+        nxt = None
+        if ob.next is not None:
+            oe = self.block(s.orelse, ob.next)
+            nxt = oe.next
+            out = self.merge(out, self._without_next(oe))
+        # handlers: entered from any point of the body (an exception the analysis does not model), and from its certain raises
+        hin = self.join(maybe, ob.exc)
+        uncaught = ob.exc
+        for h in s.handlers:
+            names = self._handler_names(h)
+            if names is None or names & _CATCH_ALL:
+                uncaught = None
+            if hin is None:
+                continue
+            hs = hin.copy()
+            if h.name:
+                hs.env[h.name] = TOP
+            self.live.add(id(h))
+            oh = self.block(h.body, hs)
+            if oh.next is not None and h.name:
+                oh.next.env.pop(h.name, None)
+            nxt = self.join(nxt, oh.next)
+            out = self.merge(out, self._without_next(oh))
+        # an exception no handler takes leaves the statement (kept as an `exc` outcome: over-approximation)
+        out.exc = self.join(out.exc, ob.exc if s.handlers else ob.exc)
+        out.next = nxt
+        if s.finalbody:
+            allst = None
+            for k in ("next", "ret", "brk", "cont", "exc"):
+                allst = self.join(allst, getattr(out, k))
+            allst = self.join(allst, maybe)
+            if allst is not None:
+                of = self.block(s.finalbody, allst.copy())
+                for k in ("next", "ret", "brk", "cont", "exc"):
+                    if getattr(out, k) is not None:
+                        setattr(out, k, None if of.next is None else self._with_ret(of.next, getattr(out, k)))
+                out = self.merge(out, self._without_next(of))
+        return out
+
+    do_TryStar = do_Try
+
+    @staticmethod
+    def _with_ret(after, before):
+        r = after.copy()
+        if "<ret>" in before.env:
+            r.env["<ret>"] = before.env["<ret>"]
+        return r
+
+    @staticmethod
+    def _without_next(o):
+        r = _Out()
+        r.ret, r.brk, r.cont, r.exc = o.ret, o.brk, o.cont, o.exc
+        return r
+
+    def do_With(self, s, st):
+        for it in s.items:
+            v = self.ev(it.context_expr, st)
+            self.escape_val(v, st)
+            if it.optional_vars is not None:
+                self.assign(it.optional_vars, TOP, st)
+        self.acc.append([self.depth, None])
+        try:
+            o = self.block(s.body, st)
+        finally:
+            maybe = self.acc.pop()[1]
+        # a context manager may swallow an exception raised anywhere in the body
+        o.next = self.join(o.next, self.join(maybe, o.exc))
+        self.note_exc(maybe)
+        return o
+
+    do_AsyncWith = do_With
+
+
+def _walk_own(node):
+    """nodes of a function that belong to it (nested functions / lambdas / classes are not entered)"""
+    todo = list(ast.iter_child_nodes(node))
+    while todo:
+        n = todo.pop()
+        yield n
+        if isinstance(n, (ast.FunctionDef, ast.AsyncFunctionDef, ast.Lambda, ast.ClassDef)):
+            continue
+        todo.extend(ast.iter_child_nodes(n))
+
+
+from ..exc import EscapeAnalysis as _EscapeAnalysis, Esc as _Esc  # noqa: E402
+from ..model import stmt_text as _stmt_text  # noqa: E402
+
+
+class ShapedEscapes(_EscapeAnalysis):
+    """EscapeAnalysis whose call-site specialisation is decided by `KwFlow`: while a callee is analysed for one call
+    shape, the statements / conditional-expression arms / boolean operands that no run with that shape executes are
+    skipped, and a statement that certainly raises KeyError on the `**kwargs` dictionary contributes that KeyError
+    (so that it is filtered by the enclosing handlers like any other raise).  The engine's own pruning stays in force
+    (both are sound: the live set used is the intersection)."""
+
+    def __init__(self, *a, **kw):
+        _EscapeAnalysis.__init__(self, *a, **kw)
+        self._flows = {}
+        self._grow = {}
+        self._cur = None
+        self._cur_fi = None
+        self.flow_log = []  # (function, shape summary, number of dead nodes) for the evidence file
+
+    def _flow(self, fi, shape):
+        key = (fi.qn, shape)
+        if key not in self._flows:
+            res = None
+            if shape:
+                kf = KwFlow(self.prog, fi, shape)
+                try:
+                    res = kf.run()
+                except RecursionError:
+                    res = None
+                    kf.notes.append("recursion limit")
+                if res is not None and (res[0] or res[1]):
+                    self.flow_log.append((fi.short, sorted("%s=%s" % (k, "/".join(sorted(v[1])) if v[0] in ("keys", "maykeys") else repr(v[1])) for k, v in dict(shape).items() if v and v[0] in ("const", "keys", "maykeys")), len(res[0]), sorted(set(res[1].values()))))
+                if kf.notes:
+                    self.flow_log.append((fi.short, "not decided", kf.notes))
+            self._flows[key] = res
+        return self._flows[key]
+
+    def escapes(self, fi, shape=None, selfcls=None):
+        key = (fi.qn, shape, selfcls)
+        if key in self.memo or key in self.inprogress:
+            return _EscapeAnalysis.escapes(self, fi, shape, selfcls)
+        saved = (self._cur, self._cur_fi)
+        self._cur, self._cur_fi = self._flow(fi, shape), fi
+        try:
+            return _EscapeAnalysis.escapes(self, fi, shape, selfcls)
+        finally:
+            self._cur, self._cur_fi = saved
+
+    def _stmt(self, fi, st, shape, caught):
+        cur = self._cur
+        if cur is not None and id(st) in cur[0]:
+            return set()
+        out = _EscapeAnalysis._stmt(self, fi, st, shape, caught)
+        if cur is not None and id(st) in cur[1] and cur[1][id(st)] != "?":
+            out = set(out)
+            out.add(_Esc(cur[1][id(st)], fi.short, st.lineno, _stmt_text(st, 100)))
+        return out
+
+    def _live(self, root, shape):
+        """the engine's walk (dead arm of a conditional expression decided by the shape skipped), also skipping what KwFlow found dead"""
+        cur = self._cur
+        dead = cur[0] if cur is not None else ()
+        todo = [root]
+        first = True
+        while todo:
+            n = todo.pop()
+            if not first and isinstance(n, (ast.FunctionDef, ast.AsyncFunctionDef, ast.Lambda, ast.ClassDef)):
+                continue
+            if not first and id(n) in dead:
+                continue
+            first = False
+            yield n
+            if isinstance(n, ast.IfExp):
+                d = self.decide(n.test, shape)
+                todo.append(n.test)
+                if d is not False:
+                    todo.append(n.body)
+                if d is not True:
+                    todo.append(n.orelse)
+                continue
+            todo.extend(reversed(list(ast.iter_child_nodes(n))))
+
+    def _ends_flow(self, st, shape):
+        """Control never falls through `st` under the call shape.  For a simple statement this is KwFlow's verdict "raises
+        on every run with this shape" (the engine's syntactic scan also counts a `kwargs.pop("k")` that sits in the
+        not-evaluated arm of a conditional expression / behind `"k" in kwargs and ...`, which would silence everything after
+        such a statement); compound statements as in the engine."""
+        if isinstance(st, (ast.Return, ast.Raise, ast.Continue, ast.Break)):
+            return True
+        if isinstance(st, ast.If):
+            d = self.decide(st.test, shape)
+            body_ends = bool(st.body) and self._block_ends(st.body, shape)
+            else_ends = bool(st.orelse) and self._block_ends(st.orelse, shape)
+            if d is True:
+                return body_ends
+            if d is False:
+                return else_ends
+            return body_ends and else_ends
+        cur = self._cur
+        if isinstance(st, (ast.Assign, ast.Expr, ast.AnnAssign, ast.AugAssign, ast.Delete)):
+            return cur is not None and id(st) in cur[1]
+        return False
+
+    def decide(self, test, shape):
+        """Three-valued truth of a test under the call shape.  While a KwFlow result is in force, tests over parameters
+        and the `**kwargs` dictionary are left to it (it follows re-assignments of a parameter and insertions into /
+        removals from the dictionary, which the engine's static tags do not): the engine decides only what KwFlow does
+        not model (receiver facts, isinstance(p, self.type), `self.X` aliases of parameters).  Without a KwFlow result
+        the engine's membership decision is trusted only for a function that never adds keys to the dictionary."""
+        if isinstance(test, ast.BoolOp) or (isinstance(test, ast.UnaryOp) and isinstance(test.op, ast.Not)):
+            return _EscapeAnalysis.decide(self, test, shape)
+        alias = getattr(self, "_alias", None) or {}
+        if alias and any(isinstance(n, ast.Attribute) and chain(n) in alias for n in ast.walk(test)):
+            return _EscapeAnalysis.decide(self, test, shape)
+        if self._cur is not None:
+            if isinstance(test, ast.Call):
+                return _EscapeAnalysis.decide(self, test, shape)
+            return None
+        if isinstance(test, ast.Compare) and len(test.ops) == 1 and isinstance(test.ops[0], (ast.In, ast.NotIn)) and isinstance(test.comparators[0], ast.Name):
+            if self._cur_fi is not None and self._kw_may_grow(self._cur_fi, test.comparators[0].id):
+                return None
+        return _EscapeAnalysis.decide(self, test, shape)
+
+    def _kw_may_grow(self, fi, name):
+        key = (fi.qn, name)
+        if key not in self._grow:
+            kf = KwFlow(self.prog, fi, None)
+            grow = False
+            if not isinstance(fi.node, ast.Lambda):
+                for n in ast.walk(fi.node):
+                    if not (isinstance(n, ast.Name) and n.id == name):
+                        continue
+                    if kf._readonly_use(n):
+                        continue
+                    p = kf.parents.get(id(n))
+                    g = kf.parents.get(id(p)) if p is not None else None
+                    if isinstance(p, ast.Attribute) and p.value is n and p.attr in ("pop", "popitem", "clear") and isinstance(g, ast.Call) and g.func is p:
+                        continue
+                    if isinstance(p, ast.Subscript) and p.value is n and isinstance(p.ctx, ast.Del):
+                        continue
+                    if isinstance(p, ast.arg):
+                        continue
+                    grow = True
+            self._grow[key] = grow
+        return self._grow[key]
+
+    def shape_for(self, caller, call, callee, extra_first=0):
+        """The engine's call shape, refined by what KwFlow knows about the call site in the caller's current shape: a
+        `**mapping` whose key set was tracked becomes explicit keywords (keys that are certainly passed) plus possible
+        keys (tagged `present` when they name a parameter, "maykeys" for the callee's own `**kwargs`); an argument whose
+        value is a known constant is tagged with it."""
+        cur = self._cur
+        info = cur[2].get(id(call)) if cur is not None and caller is self._cur_fi and len(cur) > 2 else None
+        if info is None:
+            return _EscapeAnalysis.shape_for(self, caller, call, callee, extra_first)
+        use = call
+        maybe = set()
+        nn_keys = {}
+        if any(k.arg is None for k in call.keywords):
+            ds = info["dstar"]
+            stars = [k for k in call.keywords if k.arg is None]
+            if len(ds) == len(stars) and all(x is not None for x in ds):
+                kws = [k for k in call.keywords if k.arg is not None]
+                have = {k.arg for k in kws}
+                for must, may, vals in ds:
+                    vals = dict(vals)
+                    for name in sorted(must):
+                        if name in have:
+                            continue
+                        have.add(name)
+                        v = vals.get(name, TOP)
+                        nn_keys[name] = v
+                        val = ast.Constant(value=v[2]) if _is_const(v) and (v[2] is None or isinstance(v[2], (bool, int, str, bytes))) else ast.Name(id="<tracked>", ctx=ast.Load())
+                        kws.append(ast.keyword(arg=name, value=val))
+                    maybe |= set(may) - set(must)
+                use = ast.Call(func=call.func, args=list(call.args), keywords=kws)
+                ast.copy_location(use, call)
+                ast.fix_missing_locations(use)
+        sh = dict(_EscapeAnalysis.shape_for(self, caller, use, callee, extra_first))
+        a = callee.node.args
+        declared = {x.arg for x in a.posonlyargs + a.args + a.kwonlyargs}
+        # constants the engine's syntactic tagging does not see (a local bound to a constant, a default taken from a tracked dictionary)
+        pnames = [x.arg for x in a.posonlyargs + a.args]
+        for name, v in info["kw"].items():
+            if _is_const(v) and sh.get(name) == ("present",) and (v[2] is None or isinstance(v[2], (bool, int, str, bytes))):
+                sh[name] = ("const", v[2])
+            elif sh.get(name) == ("present",) and KwFlow._not_none(v):
+                sh[name] = ("nn",)
+        for name, v in nn_keys.items():
+            if sh.get(name) == ("present",) and KwFlow._not_none(v):
+                sh[name] = ("nn",)
+        if maybe:
+            for name in maybe:
+                if name in declared:
+                    sh[name] = ("present",)
+            if a.kwarg:
+                key = "**" + a.kwarg.arg
+                t = sh.get(key)
+                extra = frozenset(n for n in maybe if n not in declared)
+                if t is not None and extra:
+                    sh[key] = ("maykeys", frozenset(t[1]) | extra)
+        return frozenset(sh.items())
+
+
+def apply_callable(sx, path, cb, args, imports=None):
+    """The expression computed by calling the callable value `cb` (resolved) with the resolved argument expressions
+    `args`: lambda (parameters substituted), nested def (a call the executor evaluates in place), functools.partial,
+    `operator.contains` / `operator.not_` / `x.__contains__`, bound method.  None when the callable is not understood."""
+    imports = imports or {}
+    if isinstance(cb, ast.Lambda):
+        a = cb.args
+        names = [x.arg for x in a.posonlyargs + a.args]
+        if a.vararg or a.kwarg or a.kwonlyargs or len(names) < len(args):
+            return None
+        env = dict(zip(names, args))
+        for p_, d in zip(reversed(a.posonlyargs + a.args), reversed(a.defaults)):
+            env.setdefault(p_.arg, d)
+        if len(env) != len(names):
+            return None
+        return _Subst(env, {}).visit(cb.body)
+    if isinstance(cb, ast.Name) and cb.id in path.defs:
+        return ast.Call(func=cb, args=list(args), keywords=[])
+    if isinstance(cb, ast.Call) and (chain(cb.func) or "").split(".")[-1] == "partial" and cb.args and not cb.keywords:
+        return apply_callable(sx, path, cb.args[0], list(cb.args[1:]) + list(args), imports)
+    if isinstance(cb, ast.Call) and (chain(cb.func) or "").split(".")[-1] in ("attrgetter", "itemgetter") and len(args) == 1:
+        return _Canon(sx).visit(ast.Call(func=cb, args=list(args), keywords=[]))
+    c = chain(cb)
+    if c is not None:
+        head = c.split(".")[0]
+        q = ".".join([imports.get(head, head)] + c.split(".")[1:])
+        if q == "operator.contains" and len(args) == 2:
+            return ast.Compare(left=args[1], ops=[ast.In()], comparators=[args[0]])
+        if q == "operator.not_" and len(args) == 1:
+            return ast.UnaryOp(op=ast.Not(), operand=args[0])
+        if q == "operator.truth" and len(args) == 1:
+            return args[0]
+    if isinstance(cb, ast.Attribute):
+        if cb.attr == "__contains__" and len(args) == 1:
+            return ast.Compare(left=args[0], ops=[ast.In()], comparators=[cb.value])
+        return ast.Call(func=cb, args=list(args), keywords=[])
+    return None
+
+
+def filtered_iter(sx, path, it, elem, imports=None):
+    """Peel the filters off an iterable: `filter(P, X)`, `itertools.filterfalse(P, X)`, `list/tuple/iter/sorted(X)`,
+    `(t for t in X if C)`.  -> (X, [conditions over the element expression `elem`]) or None when a filter is not understood."""
+    imports = imports or {}
+    conds = []
+    for _ in range(6):
+        if isinstance(it, ast.Call) and not it.keywords:
+            fn = chain(it.func) or ""
+            head = fn.split(".")[0]
+            q = ".".join([imports.get(head, head)] + fn.split(".")[1:])
+            if q in ("list", "tuple", "iter") and len(it.args) == 1:
+                it = it.args[0]
+                continue
+            if q == "filter" and len(it.args) == 2:
+                P_ = it.args[0]
+                c = elem if (isinstance(P_, ast.Constant) and P_.value is None) else apply_callable(sx, path, P_, [elem], imports)
+                if c is None:
+                    return None
+                conds.append(c)
+                it = it.args[1]
+                continue
+            if q == "itertools.filterfalse" and len(it.args) == 2:
+                P_ = it.args[0]
+                c = elem if (isinstance(P_, ast.Constant) and P_.value is None) else apply_callable(sx, path, P_, [elem], imports)
+                if c is None:
+                    return None
+                conds.append(ast.UnaryOp(op=ast.Not(), operand=c))
+                it = it.args[1]
+                continue
+        if isinstance(it, ast.GeneratorExp) and len(it.generators) == 1 and not it.generators[0].is_async and txt(it.elt) == txt(it.generators[0].target) and isinstance(it.generators[0].target, ast.Name):
+            g = it.generators[0]
+            env = {g.target.id: elem}
+            conds.extend(_Subst(env, {}).visit(c) for c in g.ifs)
+            it = g.iter
+            continue
+        break
+    return it, conds
+
+
+def handler_types(prog, module, h):
+    """The exception classes an `except` clause names, as expressions: a name bound once at module level to a tuple
+    of classes (`_ERRORS = (KeyError, ValueError)`) stands for its elements.  None for a bare `except:`."""
+    if h.type is None:
+        return None
+    out = []
+    todo = list(h.type.elts) if isinstance(h.type, ast.Tuple) else [h.type]
+    seen = 0
+    while todo and seen < 40:
+        seen += 1
+        t = todo.pop(0)
+        if isinstance(t, ast.Name):
+            vals = []
+            for st in module.tree.body:
+                if isinstance(st, ast.Assign) and any(isinstance(x, ast.Name) and x.id == t.id for x in st.targets):
+                    vals.append(st.value)
+                elif isinstance(st, ast.AnnAssign) and isinstance(st.target, ast.Name) and st.target.id == t.id and st.value is not None:
+                    vals.append(st.value)
+            if len(vals) == 1 and isinstance(vals[0], ast.Tuple):
+                todo = list(vals[0].elts) + todo
+                continue
+        out.append(t)
+    return out
+
+
+def _shaped_catches(self, fi, handler, esc):
+    ts = handler_types(self.prog, fi.module, handler)
+    if ts is not None and not (isinstance(handler.type, ast.Tuple) and len(ts) == len(handler.type.elts) and all(a is b for a, b in zip(ts, handler.type.elts))) and not (len(ts) == 1 and ts[0] is handler.type):
+        h2 = ast.ExceptHandler(type=ast.Tuple(elts=ts, ctx=ast.Load()), name=handler.name, body=handler.body)
+        ast.copy_location(h2, handler)
+        return _EscapeAnalysis._catches(self, fi, h2, esc)
+    return _EscapeAnalysis._catches(self, fi, handler, esc)
+
+
+ShapedEscapes._catches = _shaped_catches
+
+
+def _shaped_call(self, fi, call, shape, st):
+    """`p = functools.partial(f, a.., k=..)` ... `p(b.., k2=..)` (or the partial called directly) is the call
+    `f(a.., b.., k=.., k2=..)`: the engine would treat the local name as an unknown external callable and not look
+    into f at all."""
+    g = call.func
+    if isinstance(g, ast.Name) and not isinstance(fi.node, ast.Lambda):
+        from ..rulekit import resolve_local
+        g = resolve_local(fi.node, g)
+    if isinstance(g, ast.Call) and (chain(g.func) or "").split(".")[-1] == "partial" and g.args and not any(isinstance(a, ast.Starred) for a in g.args) and not any(k.arg is None for k in g.keywords):
+        later = {k.arg for k in call.keywords if k.arg is not None}
+        m = ast.Call(func=g.args[0], args=list(g.args[1:]) + list(call.args), keywords=[k for k in g.keywords if k.arg not in later] + list(call.keywords))
+        ast.copy_location(m, call)
+        ast.fix_missing_locations(m)
+        return _EscapeAnalysis._call(self, fi, m, shape, st)
+    return _EscapeAnalysis._call(self, fi, call, shape, st)
+
+
+def _shaped_receiver_facts(self, fi, call):
+    """Lemma L2 of the engine (facts `recv.is_x()` known where `recv.m()` is called) with the facts taken from every
+    branch outcome that dominates the call, not only from the left operands of an enclosing `and`: the guard clause
+    `if not n.is_safetoforward(): return ...` establishes the same fact as `n.is_safetoforward() and ...`.  Only
+    argument-less `is_*` queries on a receiver whose root name is bound at most once in the function are used."""
+    base = _EscapeAnalysis._receiver_facts(self, fi, call)
+    if not isinstance(call.func, ast.Attribute) or isinstance(fi.node, ast.Lambda):
+        return base
+    from ..rulekit import writes_to_name
+    from ..pat import dump
+    recv = call.func.value
+    root = recv
+    while isinstance(root, ast.Attribute):
+        root = root.value
+    if not isinstance(root, ast.Name) or len(writes_to_name(fi.node, root.id)) > 1:
+        return base
+    for n in ast.walk(fi.node):
+        # the receiver must be the same object in the same state at the guard and at the call: nothing in the function
+        # stores into it
+        if isinstance(n, (ast.Attribute, ast.Subscript)) and isinstance(n.ctx, (ast.Store, ast.Del)):
+            b = n
+            while isinstance(b, (ast.Attribute, ast.Subscript)):
+                b = b.value
+            if isinstance(b, ast.Name) and b.id == root.id:
+                return base
+    try:
+        cfg = cfg_of(fi)
+        nids = cfg.locate(call)
+    except Exception:
+        return base
+    if not nids:
+        return base
+    facts = dict(base or ())
+    rd = dump(recv)
+
+    def add(e, pol):
+        while isinstance(e, ast.UnaryOp) and isinstance(e.op, ast.Not):
+            e, pol = e.operand, not pol
+        if isinstance(e, ast.Call) and isinstance(e.func, ast.Attribute) and dump(e.func.value) == rd and not e.args and not e.keywords and e.func.attr.startswith("is_"):
+            facts.setdefault(e.func.attr, pol)
+            for callee, _ in self.res.resolve_callees(fi, e)[0]:
+                body = [b for b in callee.node.body if not (isinstance(b, ast.Expr) and isinstance(b.value, ast.Constant))]
+                if len(body) == 1 and isinstance(body[0], ast.Return) and body[0].value is not None:
+                    v, p2 = body[0].value, pol
+                    while isinstance(v, ast.UnaryOp) and isinstance(v.op, ast.Not):
+                        v, p2 = v.operand, not p2
+                    if isinstance(v, ast.Call) and isinstance(v.func, ast.Attribute) and chain(v.func.value) == "self" and not v.args:
+                        facts.setdefault(v.func.attr, p2)
+
+    # inside an expression: the arms of a conditional expression know the outcome of its test, the later operands
+    # of `or` / `and` know that the earlier ones were false / true
+    child = call
+    par = cfg.parent.get(id(call))
+    while par is not None and not isinstance(par, ast.stmt):
+        if isinstance(par, ast.IfExp) and child is not par.test:
+            add(par.test, child is par.body)
+        elif isinstance(par, ast.BoolOp):
+            for v in par.values:
+                if v is child:
+                    break
+                add(v, isinstance(par.op, ast.And))
+        elif isinstance(par, (ast.Lambda, ast.FunctionDef, ast.AsyncFunctionDef)):
+            break
+        child = par
+        par = cfg.parent.get(id(par))
+    common = None
+    for nid in nids:
+        here = {}
+        for e, pol, _g in cfg.guards(nid):
+            before = dict(facts)
+            facts.clear()
+            add(e, pol)
+            here.update(facts)
+            facts.clear()
+            facts.update(before)
+        common = here if common is None else {k: v for k, v in common.items() if here.get(k) == v}
+    for k, v in (common or {}).items():
+        facts.setdefault(k, v)
+    return frozenset(facts.items()) if facts else None
+
+
+ShapedEscapes._call = _shaped_call
+ShapedEscapes._receiver_facts = _shaped_receiver_facts
+
+
+def _translator_cm(self, fi, item):
+    """`with cm(a, b):` where cm is a generator function of the program decorated with contextlib.contextmanager whose
+    body is nothing but `try: yield  except ...: ...  [finally: ...]` -- an exception translator.  -> (FuncInfo of cm,
+    its Try statement, {name of cm's parameter: expressions passed}) or None."""
+    call = item.context_expr
+    if not isinstance(call, ast.Call) or any(isinstance(a, ast.Starred) for a in call.args) or call.keywords:
+        return None
+    try:
+        callees, kind = self.res.resolve_callees(fi, call)
+    except Exception:
+        return None
+    if kind != "resolved" or len(callees) != 1:
+        return None
+    cm = callees[0][0]
+    node = cm.node
+    if not isinstance(node, ast.FunctionDef) or not any((chain(d) or "").split(".")[-1] == "contextmanager" for d in node.decorator_list):
+        return None
+    body = [b for b in node.body if not (isinstance(b, ast.Expr) and isinstance(b.value, ast.Constant))]
+    if len(body) != 1 or not isinstance(body[0], ast.Try):
+        return None
+    t = body[0]
+    if len(t.body) != 1 or not (isinstance(t.body[0], ast.Expr) and isinstance(t.body[0].value, ast.Yield)) or t.orelse:
+        return None
+    if sum(1 for n in ast.walk(node) if isinstance(n, (ast.Yield, ast.YieldFrom))) != 1:
+        return None
+    a = node.args
+    if a.kwarg or a.kwonlyargs or a.defaults:
+        return None
+    names = [x.arg for x in a.posonlyargs + a.args]
+    if len(call.args) < len(names) or (len(call.args) > len(names) and not a.vararg):
+        return None
+    passed = {n: [v] for n, v in zip(names, call.args)}
+    if a.vararg:
+        passed[a.vararg.arg] = list(call.args[len(names):])
+    return cm, t, passed
+
+
+def _shaped_stmt_with(self, fi, st, shape, caught):
+    """the managed block of an exception-translating context manager is the body of the manager's own try statement"""
+    if len(st.items) != 1 or st.items[0].optional_vars is not None:
+        return None
+    r = _translator_cm(self, fi, st.items[0])
+    if r is None:
+        return None
+    cm, t, passed = r
+    out = set(self._expr(fi, st.items[0].context_expr.func, shape, st))
+    for a in st.items[0].context_expr.args:
+        out |= self._expr(fi, a, shape, st)
+    body = self._block(fi, st.body, shape, caught)
+    per = [set() for _ in t.handlers]
+    remaining = set()
+    for e in body:
+        for i, h in enumerate(t.handlers):
+            hh, ctxfi = h, cm
+            if h.type is not None:
+                ts = h.type.elts if isinstance(h.type, ast.Tuple) else [h.type]
+                new, own = [], True
+                for x in ts:
+                    if isinstance(x, ast.Name) and x.id in passed:
+                        new.extend(passed[x.id])
+                        own = False
+                    else:
+                        new.append(x)
+                if not own:
+                    if len(new) != sum(len(passed[x.id]) if isinstance(x, ast.Name) and x.id in passed else 1 for x in ts) or any(not (isinstance(x, ast.Name) and x.id in passed) for x in ts):
+                        return None  # a mix of the manager's own names and the caller's: not interpreted
+                    hh = ast.ExceptHandler(type=ast.Tuple(elts=new, ctx=ast.Load()), name=h.name, body=h.body)
+                    ast.copy_location(hh, h)
+                    ctxfi = fi  # the classes were named at the call site
+            if self._catches(ctxfi, hh, e):
+                per[i].add(e)
+                break
+        else:
+            remaining.add(e)
+    out |= remaining
+    for h, got in zip(t.handlers, per):
+        out |= {e.with_via(fi.short) for e in self._block(cm, h.body, None, caught=(h.name, got, h))}
+    out |= {e.with_via(fi.short) for e in self._block(cm, t.finalbody, None, caught)}
+    return out
+
+
+_prev_stmt = ShapedEscapes._stmt
+
+
+def _shaped_stmt(self, fi, st, shape, caught):
+    if isinstance(st, ast.With):
+        cur = self._cur
+        if not (cur is not None and id(st) in cur[0]):
+            r = _shaped_stmt_with(self, fi, st, shape, caught)
+            if r is not None:
+                self.lemmas_used.append("CM %s: exception-translating context manager analysed as its try statement" % _stmt_text(st.items[0].context_expr, 60))
+                return r
+    return _prev_stmt(self, fi, st, shape, caught)
+
+
+ShapedEscapes._stmt = _shaped_stmt
